@@ -974,6 +974,7 @@ Proof.
   unfold dec_level. rewrite bind_modify. stsimpl. reflexivity.
 Qed.
 
+
 (* ---- unscoped function names: _Z <source-name> <builtin type>* *)
 Lemma unscoped_encoding_at : forall id params F,
   s = str "_Z" ++ src id ++ params ->
@@ -1963,6 +1964,8 @@ Inductive TyL : nat -> list Z -> Prop :=
 | TL_subst : forall seq n ta, forallb seqchar seq = true -> TA n ta -> TyL (S n) (83 :: seq ++ 95 :: ta)
 | TL_src : forall id n ta, ident_okb id = true -> TA n ta -> TyL (n + 3) (src id ++ ta)
 | TL_nested : forall n items, NI n items -> TyL (n + 4) (78 :: items ++ [69])
+| TL_abbr : forall c nm n ta, find_abbrev std_abbrevs c = Some nm -> c <> 116 -> TA n ta -> TyL (S n) (83 :: c :: ta)
+| TL_std : forall id n ta, ident_okb id = true -> TA n ta -> TyL (n + 3) (83 :: 116 :: src id ++ ta)
 with TA : nat -> list Z -> Prop :=
 | TA_none : TA 0 []
 | TA_some : forall n l, TAL n l -> TA (n + 2) (73 :: l ++ [69])
@@ -1975,7 +1978,9 @@ with NI : nat -> list Z -> Prop :=
 | NI_nil : NI 1 []
 | NI_src : forall id n ta m l, ident_okb id = true -> TA n ta -> NI m l -> NI (n + m + 2) (src id ++ ta ++ l)
 | NI_sub : forall seq n ta m l, forallb seqchar seq = true -> TA n ta -> NI m l ->
-           NI (n + m + 2) (83 :: seq ++ 95 :: ta ++ l).
+           NI (n + m + 2) (83 :: seq ++ 95 :: ta ++ l)
+| NI_abbr : forall c nm n ta m l, find_abbrev std_abbrevs c = Some nm -> TA n ta -> NI m l ->
+            NI (n + m + 2) (83 :: c :: ta ++ l).
 
 Scheme TyL_mut := Minimality for TyL Sort Prop
   with TA_mut := Minimality for TA Sort Prop
@@ -1985,13 +1990,16 @@ Combined Scheme grammar_ind from TyL_mut, TA_mut, TAL_mut, NI_mut.
 
 Lemma TyL_hd : forall n u, TyL n u -> forall rest, tyhd (hd0 (u ++ rest)) = true.
 Proof.
-  intros n u H. induction H as [c Hc | q n u Hq H IH | seq n ta Hs Hta | id n ta Hid Hta | n items Hi]; intros rest;
+  intros n u H. induction H as [c Hc | q n u Hq H IH | seq n ta Hs Hta | id n ta Hid Hta | n items Hi
+                               | c nm n ta Hc Hct Hta | id n ta Hid Hta ]; intros rest;
     unfold tyhd; cbn [app hd0].
   - rewrite Hc. rewrite orb_true_r. reflexivity.
   - rewrite Hq. reflexivity.
   - rewrite !orb_true_r. reflexivity.
   - rewrite <- app_assoc. pose proof (src_hd_digit id (ta ++ rest) Hid) as Hd. unfold isdigit.
     rwt (48 <=? hd0 (src id ++ ta ++ rest)). rwt (hd0 (src id ++ ta ++ rest) <=? 57). cbn [andb]. rewrite !orb_true_r. reflexivity.
+  - rewrite !orb_true_r. reflexivity.
+  - rewrite !orb_true_r. reflexivity.
   - rewrite !orb_true_r. reflexivity.
 Qed.
 Lemma TA_hd : forall n ta, TA n ta -> ta = [] \/ exists r, ta = 73 :: r.
@@ -2007,9 +2015,10 @@ Qed.
 Lemma NI_hd : forall m l, NI m l -> forall rest,
   let h := hd0 (l ++ 69 :: rest) in (48 <= h <= 57) \/ h = 83 \/ h = 69.
 Proof.
-  intros m l H rest. destruct H as [| id n ta m l Hid Hta Hl | seq n ta m l Hs Hta Hl ]; cbn zeta.
+  intros m l H rest. destruct H as [| id n ta m l Hid Hta Hl | seq n ta m l Hs Hta Hl | c nm n ta m l Hc Hta Hl ]; cbn zeta.
   - right; right; reflexivity.
   - left. rewrite <- !app_assoc. apply src_hd_digit. exact Hid.
+  - right; left. reflexivity.
   - right; left. reflexivity.
 Qed.
 
@@ -2031,6 +2040,59 @@ Definition P_TAL (n : nat) (l : list Z) : Prop :=
 Definition P_NI (n : nat) (l : list Z) : Prop :=
   forall k p o lv t tp fnm rest, 0 < t -> At p (l ++ 69 :: rest) -> (n <= k)%nat ->
   run true s 0 k (LNested 0) (G p o lv t tp fnm) = R 0 (G (p + Z.of_nat (List.length l)) o lv t tp fnm).
+
+(* S t | S a | S b | S s | S i | S o | S d : the std abbreviations *)
+Lemma abbrev_chars : forall c nm, find_abbrev std_abbrevs c = Some nm -> 97 <= c <= 122.
+Proof.
+  intros c nm H. unfold std_abbrevs, find_abbrev in H.
+  repeat match type of H with (if ?b then _ else _) = _ => destruct b eqn:?; [ | ] end;
+    try discriminate; match goal with X : (c =? _) = true |- _ => apply Z.eqb_eq in X; revert X; chs; lia end.
+Qed.
+Lemma subst_abbr_skip : forall p o lv t tp fnm c nm rest, t <> 0 ->
+  At p (83 :: c :: rest) -> find_abbrev std_abbrevs c = Some nm -> hd0 rest <> 66 ->
+  dd_substitution true s 0 (G p o lv t tp fnm) = R 0 (G (p + 2) o lv t tp fnm).
+Proof.
+  intros p o lv t tp fnm c nm rest Ht H Hc HB. unfold dd_substitution. unfold G at 1.
+  pose proof (At_lt _ _ _ H) as Hlt.
+  rewrite bind_eof. stsimpl. rwf (p >=? L). cbn [Z.eqb].
+  unfold expect at 1. unfold consume.
+  erewrite bind_R; [| apply (consume_n_at _ 1 (83 :: c :: rest)); [ exact H | reflexivity | cbn [List.length]; lia ] ].
+  cbn [hd0]. chs. cbn [Z.eqb Pos.eqb]. stsimpl.
+  pose proof (At_cons _ _ _ H) as H1. pose proof (At_cons _ _ _ H1) as H2. replace (p + 1 + 1) with (p + 2) in H2 by lia.
+  erewrite bind_R; [| apply (curr_at _ (c :: rest)); [ exact H1 | reflexivity ] ].
+  cbn [hd0]. rewrite Hc.
+  erewrite bind_R; [| apply (consume_n_at _ 1 (c :: rest)); [ exact H1 | reflexivity | cbn [List.length]; lia ] ].
+  stsimpl. rewrite bind_gets, bind_getb. stsimpl. rwf (t =? 0). cbn [Z.eqb orb]. rewrite bind_ret_k.
+  replace (p + 1 + 1) with (p + 2) by lia.
+  erewrite bind_R; [| apply (curr_at _ rest); [ exact H2 | reflexivity ] ].
+  chs. rwf (hd0 rest =? 66). rewrite bind_ret_k. reflexivity.
+Qed.
+Lemma subst_abbr_at : forall p o lv fnm c nm rest,
+  At p (83 :: c :: rest) -> find_abbrev std_abbrevs c = Some nm -> hd0 rest <> 66 ->
+  dd_substitution true s 0 (NS p o lv fnm) = R 0 (NS (p + 2) (add_out (sep_out o fnm) nm) lv false).
+Proof.
+  intros p o lv fnm c nm rest H Hc HB. unfold dd_substitution. unfold NS at 1.
+  pose proof (At_lt _ _ _ H) as Hlt.
+  rewrite bind_eof. stsimpl. rwf (p >=? L). cbn [Z.eqb].
+  unfold expect at 1. unfold consume.
+  erewrite bind_R; [| apply (consume_n_at _ 1 (83 :: c :: rest)); [ exact H | reflexivity | cbn [List.length]; lia ] ].
+  cbn [hd0]. chs. cbn [Z.eqb Pos.eqb]. stsimpl.
+  pose proof (At_cons _ _ _ H) as H1. pose proof (At_cons _ _ _ H1) as H2. replace (p + 1 + 1) with (p + 2) in H2 by lia.
+  erewrite bind_R; [| apply (curr_at _ (c :: rest)); [ exact H1 | reflexivity ] ].
+  cbn [hd0]. rewrite Hc.
+  erewrite bind_R; [| apply (consume_n_at _ 1 (c :: rest)); [ exact H1 | reflexivity | cbn [List.length]; lia ] ].
+  stsimpl. rewrite bind_gets, bind_getb. stsimpl. cbn [Z.eqb orb].
+  replace (p + 1 + 1) with (p + 2) by lia.
+  unfold bind at 1. unfold bind at 1. unfold append_separator, append. stsimpl.
+  assert (E : forall st', curr s 0 st' = R (hd0 rest) st' -> 
+              (c2 <- curr s 0;; (if c2 =? 66 then dd_abi_tag true s 0 else ret 0);;; ret 0) st' = R 0 st').
+  { intros st' Hcu. erewrite bind_R; [| exact Hcu ]. rwf (hd0 rest =? 66). rewrite bind_ret_k. reflexivity. }
+  destruct fnm; stsimpl.
+  - rewrite E; [ unfold NS, sep_out, add_out; destruct o; reflexivity |].
+    apply (curr_at _ rest); [ exact H2 | reflexivity ].
+  - rewrite E; [ unfold NS, sep_out, add_out; destruct o; reflexivity |].
+    apply (curr_at _ rest); [ exact H2 | reflexivity ].
+Qed.
 
 (* after an optional <targs>: `if (dd_curr(dd) == 'I') ret = dd_template_args(dd)` *)
 Lemma targs_cont : forall n ta k p o lv t tp fnm rest v, TA n ta -> P_TA n ta -> 0 <= t ->
@@ -2230,6 +2292,54 @@ Proof.
     cbn [hd0]. chs. cbn [Z.eqb Pos.eqb]. stsimpl.
     unfold dec_level. rewrite bind_modify. unfold ret, G. stsimpl.
     replace (lv + 1 - 1) with lv by lia. f_equal. f_equal. cbn [List.length]. rewrite app_length. cbn [List.length]. lia.
+  - (* S a | S b | S s | S i | S o | S d  [<targs>] *)
+    intros c nm n ta Hc Hct Hta IH k p o lv t tp fnm rest Ht H [HfI HfB] Hk.
+    destruct k as [| k]; [ lia |].
+    change (run true s 0 (S k) (LType (-1))) with (type_loop true s 0 (run true s 0 k) (-1)).
+    unfold type_loop. unfold G at 1. cbn [app] in H.
+    pose proof (At_lt _ _ _ H). pose proof (abbrev_chars c nm Hc) as Hcr.
+    rewrite bind_eof. stsimpl. rwf (p >=? L). cbn [Z.eqb].
+    erewrite bind_R; [| apply (curr_at _ (83 :: c :: ta ++ rest)); [ exact H | reflexivity ] ].
+    cbn [hd0]. sc_eval. chs. cbn [Z.eqb Pos.eqb].
+    erewrite bind_R; [| apply (peek1_at _ 83 (c :: ta ++ rest)); [ exact H | reflexivity ] ].
+    fold (G p o lv t tp fnm).
+    assert (HB : hd0 (ta ++ rest) <> 66).
+    { destruct (TA_hd n ta Hta) as [E1 | [r E1]]; subst ta; cbn [app hd0]; [ exact HfB | lia ]. }
+    erewrite bind_R; [| apply (subst_abbr_skip p o lv t tp fnm c nm (ta ++ rest)); try assumption; lia ].
+    assert (H2 : At (p + 2) (ta ++ rest)).
+    { pose proof (At_cons _ _ _ (At_cons _ _ _ H)) as HH. replace (p + 1 + 1) with (p + 2) in HH by lia. exact HH. }
+    unfold G at 1.
+    erewrite bind_R; [| apply (curr_at _ (ta ++ rest)); [ exact H2 | reflexivity ] ].
+    cbn [hd0 Z.eqb]. rwf (c =? 116). rewrite andb_false_r. cbn [andb]. rewrite bind_ret.
+    fold (G (p + 2) o lv t tp fnm).
+    rewrite (targs_cont n ta k _ o lv t tp fnm rest 0 Hta IH ltac:(lia) H2 HfI ltac:(lia) eq_refl).
+    f_equal. unfold G. f_equal. cbn [List.length]. lia.
+  - (* S t <source-name> [<targs>] *)
+    intros id n ta Hid Hta IH k p o lv t tp fnm rest Ht H [HfI HfB] Hk.
+    destruct k as [| k]; [ lia |].
+    change (run true s 0 (S k) (LType (-1))) with (type_loop true s 0 (run true s 0 k) (-1)).
+    unfold type_loop. unfold G at 1. cbn [app] in H. rewrite <- app_assoc in H.
+    pose proof (At_lt _ _ _ H).
+    rewrite bind_eof. stsimpl. rwf (p >=? L). cbn [Z.eqb].
+    erewrite bind_R; [| apply (curr_at _ (83 :: 116 :: src id ++ ta ++ rest)); [ exact H | reflexivity ] ].
+    cbn [hd0]. sc_eval. chs. cbn [Z.eqb Pos.eqb].
+    erewrite bind_R; [| apply (peek1_at _ 83 (116 :: src id ++ ta ++ rest)); [ exact H | reflexivity ] ].
+    fold (G p o lv t tp fnm).
+    pose proof (src_hd_digit id (ta ++ rest) Hid) as Hd.
+    erewrite bind_R; [| apply (subst_abbr_skip p o lv t tp fnm 116 (str "std") (src id ++ ta ++ rest)); try reflexivity; try assumption; lia ].
+    assert (H2 : At (p + 2) (src id ++ ta ++ rest)).
+    { pose proof (At_cons _ _ _ (At_cons _ _ _ H)) as HH. replace (p + 1 + 1) with (p + 2) in HH by lia. exact HH. }
+    unfold G at 1.
+    erewrite bind_R; [| apply (curr_at _ (src id ++ ta ++ rest)); [ exact H2 | reflexivity ] ].
+    cbn [hd0 Z.eqb Pos.eqb andb]. unfold isdigit.
+    rwt (48 <=? hd0 (src id ++ ta ++ rest)). rwt (hd0 (src id ++ ta ++ rest) <=? 57). cbn [andb].
+    destruct k as [| k1]; [ lia |].
+    fold (G (p + 2) o lv t tp fnm).
+    assert (HB : hd0 (ta ++ rest) <> 66).
+    { destruct (TA_hd n ta Hta) as [E1 | [r E1]]; subst ta; cbn [app hd0]; [ exact HfB | lia ]. }
+    erewrite bind_R; [| apply (unq_skip k1 (p + 2) o lv t tp fnm id (ta ++ rest)); try assumption; lia ].
+    rewrite (targs_cont n ta (S k1) _ o lv t tp fnm rest 0 Hta IH ltac:(lia) (At_src_tail _ _ _ H2) HfI ltac:(lia) eq_refl).
+    f_equal. unfold G. f_equal. cbn [List.length]. rewrite app_length. lia.
   - (* no <targs> *)
     intros k p o lv t tp fnm rest Ht Hne. contradiction.
   - (* I <targ>* E *)
@@ -2399,6 +2509,27 @@ Proof.
       apply At_app. cbn [app]. rewrite <- app_assoc. exact H. }
     rewrite (ni_cont n ta m l (S k1) _ o lv t tp fnm rest Hta IHa IHl Ht H2 (NI_hd m l Hl rest) ltac:(lia)).
     f_equal. unfold G. f_equal. cbn [List.length]. repeat rewrite app_length. cbn [List.length]. repeat rewrite app_length. lia.
+  - (* S t | S a ... [<targs>] in a nested name *)
+    intros c nm n ta m l Hc Hta IHa Hl IHl k p o lv t tp fnm rest Ht H Hk.
+    destruct k as [| k]; [ lia |]. destruct k as [| k1]; [ lia |].
+    change (run true s 0 (S (S k1)) (LNested 0)) with (nested_loop true s 0 (run true s 0 (S k1)) 0).
+    unfold nested_loop. cbn [app] in H. rewrite <- app_assoc in H.
+    set (tail := ta ++ l ++ 69 :: rest) in *.
+    unfold G at 1.
+    erewrite bind_R; [| apply (curr_at _ (83 :: c :: tail)); [ exact H | reflexivity ] ].
+    rewrite bind_eof. stsimpl. pose proof (At_lt _ _ _ H) as Hlt. rwf (p >=? L). cbn [hd0]. chs.
+    cbn [Z.eqb Pos.eqb orb negb].
+    erewrite bind_R; [| apply (peek1_at _ 83 (c :: tail)); [ exact H | reflexivity ] ].
+    cbn [andb orb]. unfold islower, isdigit. cbn [Z.leb Z.compare Pos.compare Pos.compare_cont andb orb].
+    fold (G p o lv t tp fnm).
+    pose proof (NI_hd m l Hl rest) as Hh.
+    assert (HB : hd0 tail <> 66).
+    { unfold tail. destruct (TA_hd n ta Hta) as [E1 | [r E1]]; subst ta; cbn [app hd0]; [| lia ]. cbn zeta in Hh. lia. }
+    erewrite bind_R; [| apply (subst_abbr_skip p o lv t tp fnm c nm tail); try assumption; lia ].
+    assert (H2 : At (p + 2) tail).
+    { pose proof (At_cons _ _ _ (At_cons _ _ _ H)) as HH. replace (p + 1 + 1) with (p + 2) in HH by lia. exact HH. }
+    rewrite (ni_cont n ta m l (S k1) _ o lv t tp fnm rest Hta IHa IHl Ht H2 Hh ltac:(lia)).
+    f_equal. unfold G. f_equal. cbn [List.length]. repeat rewrite app_length. lia.
 Qed.
 
 (* ---- size and alphabet of grammar strings *)
@@ -2435,6 +2566,8 @@ Proof.
   - constructor; [ lia |]. apply Forall_app. split; [ apply no_dollar_seq; assumption |]. constructor; [ lia | assumption ].
   - apply Forall_app. split; [ apply no_dollar_src; assumption | assumption ].
   - constructor; [ lia |]. apply Forall_app. split; [ assumption | repeat constructor; lia ].
+  - constructor; [ lia |]. constructor; [ pose proof (abbrev_chars c nm H); lia | assumption ].
+  - constructor; [ lia |]. constructor; [ lia |]. apply Forall_app. split; [ apply no_dollar_src; assumption | assumption ].
   - constructor.
   - constructor; [ lia |]. apply Forall_app. split; [ assumption | repeat constructor; lia ].
   - constructor.
@@ -2448,6 +2581,7 @@ Proof.
   - apply Forall_app. split; [ apply no_dollar_src; assumption |]. apply Forall_app. split; assumption.
   - constructor; [ lia |]. apply Forall_app. split; [ apply no_dollar_seq; assumption |].
     constructor; [ lia |]. apply Forall_app. split; assumption.
+  - constructor; [ lia |]. constructor; [ pose proof (abbrev_chars c nm H); lia |]. apply Forall_app. split; assumption.
 Qed.
 
 (* ---- parameter list: <type>* up to the end of the string *)
@@ -2492,24 +2626,29 @@ Qed.
 Inductive Comps : nat -> list (list Z) -> list Z -> Prop :=
 | CP_nil : Comps 0 [] []
 | CP_cons : forall id n ta m ids l, ident_okb id = true -> TA n ta -> Comps m ids l ->
-            Comps (n + m + 3) (id :: ids) (src id ++ ta ++ l).
+            Comps (n + m + 3) (id :: ids) (src id ++ ta ++ l)
+| CP_abbr : forall c nm n ta m ids l, find_abbrev std_abbrevs c = Some nm -> TA n ta -> Comps m ids l ->
+            Comps (n + m + 3) (nm :: ids) (83 :: c :: ta ++ l).
 
 Lemma Comps_hd : forall m ids l, Comps m ids l -> forall rest, hd0 rest <> 66 -> hd0 (l ++ rest) <> 66.
 Proof.
-  intros m ids l H rest Hr. destruct H as [| id n ta m ids l Hid Hta Hl ]; [ exact Hr |].
+  intros m ids l H rest Hr. destruct H as [| id n ta m ids l Hid Hta Hl | c nm n ta m ids l Hc Hta Hl ]; [ exact Hr | | cbn; lia ].
   rewrite <- !app_assoc. pose proof (src_hd_digit id (ta ++ l ++ rest) Hid). lia.
 Qed.
 Lemma Comps_no_dollar : forall m ids l, Comps m ids l -> no_dollar l.
 Proof.
-  intros m ids l H. induction H; [ constructor |].
-  apply Forall_app. split; [ apply no_dollar_src; assumption |]. apply Forall_app. split; [| assumption ].
-  apply (proj1 (proj2 grammar_no_dollar) n ta). assumption.
+  intros m ids l H. induction H; [ constructor | |].
+  - apply Forall_app. split; [ apply no_dollar_src; assumption |]. apply Forall_app. split; [| assumption ].
+    apply (proj1 (proj2 grammar_no_dollar) n ta). assumption.
+  - constructor; [ lia |]. constructor; [ pose proof (abbrev_chars c nm H); lia |].
+    apply Forall_app. split; [| assumption ]. apply (proj1 (proj2 grammar_no_dollar) n ta). assumption.
 Qed.
 Lemma Comps_cost : forall m ids l, Comps m ids l -> (m <= 6 * List.length l)%nat.
 Proof.
-  intros m ids l H. induction H; [ cbn; lia |].
-  repeat rewrite app_length. pose proof (proj1 (proj2 grammar_cost) n ta H0). pose proof (ident_len id H).
-  assert (1 <= List.length (src id))%nat by (unfold src; rewrite app_length; lia). lia.
+  intros m ids l H. induction H; [ cbn; lia | |].
+  - repeat rewrite app_length. pose proof (proj1 (proj2 grammar_cost) n ta H0). pose proof (ident_len id H).
+    assert (1 <= List.length (src id))%nat by (unfold src; rewrite app_length; lia). lia.
+  - cbn [List.length]. rewrite app_length. pose proof (proj1 (proj2 grammar_cost) n ta H0). lia.
 Qed.
 
 Lemma nested_gcomps : forall m ids enc, Comps m ids enc -> forall l k p o lv fnm rest x,
@@ -2519,7 +2658,8 @@ Lemma nested_gcomps : forall m ids enc, Comps m ids enc -> forall l k p o lv fnm
   run true s 0 k (LNested 0) (NS p o lv fnm) =
   R 0 (NS (p + Z.of_nat (List.length enc) + Z.of_nat (List.length (last_enc l))) (Some (last_out x l)) lv false).
 Proof.
-  intros m ids enc H. induction H as [| id n ta m ids enc Hid Hta Hc IH ]; intros l k p o lv fnm rest x H Hl Hnd HL Hout Hfnm Hk.
+  intros m ids enc H. induction H as [| id n ta m ids enc Hid Hta Hc IH | c nm n ta m ids enc Hcn Hta Hc IH ];
+    intros l k p o lv fnm rest x H Hl Hnd HL Hout Hfnm Hk.
   - cbn [app List.length out_after fnm_after] in *. subst o fnm. replace (p + Z.of_nat 0) with p by lia.
     destruct k as [| [| [| k]]]; try lia.
     apply (nested_end l k p x lv rest H Hl).
@@ -2578,6 +2718,53 @@ Proof.
       change (G (p1 + Z.of_nat (List.length (73 :: r))) o1 lv 0 0 false) with (NS (p1 + Z.of_nat (List.length (73 :: r))) o1 lv false).
       rewrite (Hrest k2 _ (At_app _ _ _ H) ltac:(lia)).
       f_equal. unfold NS. f_equal. repeat rewrite app_length. unfold p1. cbn [List.length]. lia.
+  - (* a std abbreviation as component *)
+    cbn [app] in H, Hnd. rewrite <- !app_assoc in H, Hnd.
+    set (tail := enc ++ last_enc l ++ 69 :: rest) in *.
+    assert (HlastB : hd0 (last_enc l ++ 69 :: rest) <> 66).
+    { destruct l as [| kd | kd | c0 c1]; cbn [last_enc app hd0]; try lia.
+      cbn [last_okb] in Hl. apply andb_prop in Hl. destruct Hl as [Hl _]. apply andb_prop in Hl. destruct Hl as [Hl _].
+      unfold op_okb in Hl. apply andb_prop in Hl. destruct Hl as [Hl _]. apply andb_prop in Hl. destruct Hl as [Hl _].
+      unfold islower in Hl. lia. }
+    assert (HtailB : hd0 tail <> 66) by (apply (Comps_hd m ids enc Hc); exact HlastB).
+    destruct k as [| k1]; [ lia |]. destruct k1 as [| k2]; [ lia |].
+    change (run true s 0 (S (S k2)) (LNested 0)) with (nested_loop true s 0 (run true s 0 (S k2)) 0).
+    unfold nested_loop. unfold NS at 1.
+    erewrite bind_R; [| apply (curr_at _ (83 :: c :: ta ++ tail)); [ exact H | reflexivity ] ].
+    rewrite bind_eof. stsimpl. pose proof (At_lt _ _ _ H) as Hlt. rwf (p >=? L). cbn [hd0]. chs.
+    cbn [Z.eqb Pos.eqb orb negb].
+    erewrite bind_R; [| apply (peek1_at _ 83 (c :: ta ++ tail)); [ exact H | reflexivity ] ].
+    cbn [andb orb]. unfold islower, isdigit. cbn [Z.leb Z.compare Pos.compare Pos.compare_cont andb orb].
+    assert (HB2 : hd0 (ta ++ tail) <> 66).
+    { destruct (TA_hd n ta Hta) as [E1 | [r E1]]; subst ta; cbn [app hd0]; [ exact HtailB | lia ]. }
+    fold (NS p o lv fnm).
+    erewrite bind_R; [| apply (subst_abbr_at p o lv fnm c nm (ta ++ tail)); assumption ].
+    pose proof (At_cons _ _ _ (At_cons _ _ _ H)) as H2. replace (p + 1 + 1) with (p + 2) in H2 by lia.
+    cbn [out_after fnm_after] in Hout, Hfnm.
+    set (p1 := p + 2) in *.
+    set (o1 := add_out (sep_out o fnm) nm) in *.
+    assert (Hrest : forall kk pp, At pp tail -> (m + 3 <= kk)%nat ->
+              run true s 0 kk (LNested 0) (NS pp o1 lv false) =
+              R 0 (NS (pp + Z.of_nat (List.length enc) + Z.of_nat (List.length (last_enc l))) (Some (last_out x l)) lv false)).
+    { intros kk pp Hpp Hkk. apply (IH l kk pp o1 lv false rest x); try assumption.
+      - eapply no_dollar_app_r. inversion Hnd as [| ? ? _ Hnd1 ]; subst. inversion Hnd1 as [| ? ? _ Hnd2 ]; subst. exact Hnd2.
+      - destruct ids; reflexivity. }
+    destruct (TA_hd n ta Hta) as [E1 | [r E1]]; subst ta.
+    + cbn [app List.length] in *. rewrite (Hrest (S k2) p1 H2 ltac:(lia)).
+      f_equal. unfold NS. f_equal. unfold p1. lia.
+    + change (run true s 0 (S k2) (LNested 0)) with (nested_loop true s 0 (run true s 0 k2) 0).
+      unfold nested_loop. unfold NS at 1. cbn [app] in H2.
+      erewrite bind_R; [| apply (curr_at _ (73 :: r ++ tail)); [ exact H2 | reflexivity ] ].
+      rewrite bind_eof. stsimpl. pose proof (At_lt _ _ _ H2) as Hlt1. rwf (p1 >=? L). cbn [hd0]. chs.
+      cbn [Z.eqb Pos.eqb orb negb].
+      erewrite bind_R; [| apply (peek1_at _ 73 (r ++ tail)); [ exact H2 | reflexivity ] ].
+      cbn [andb orb]. unfold islower, isdigit. cbn [Z.leb Z.compare Pos.compare Pos.compare_cont andb orb].
+      change (mkst p1 L o1 0 lv 0 false false false false) with (G p1 o1 lv 0 0 false).
+      change (73 :: r ++ tail) with ((73 :: r) ++ tail) in H2.
+      erewrite bind_R; [| apply (proj1 (proj2 grammar_walk) n (73 :: r) Hta k2 p1 o1 lv 0 0 false tail); [ lia | discriminate | exact H2 | lia ] ].
+      change (G (p1 + Z.of_nat (List.length (73 :: r))) o1 lv 0 0 false) with (NS (p1 + Z.of_nat (List.length (73 :: r))) o1 lv false).
+      rewrite (Hrest k2 _ (At_app _ _ _ H2) ltac:(lia)).
+      f_equal. unfold NS. f_equal. repeat rewrite app_length. unfold p1. cbn [List.length]. rewrite app_length. cbn [List.length]. lia.
 Qed.
 
 Lemma encoding_generic_g : forall c0 tl x pe m ptxt F3,
@@ -2665,6 +2852,857 @@ Proof.
   cbn [hd0]. chs. cbn [Z.eqb Pos.eqb]. stsimpl.
   unfold dec_level. rewrite bind_modify. stsimpl. unfold ret, NS. cbn [Z.sub Z.add Z.opp Z.pos_sub Pos.pred_double].
   reflexivity.
+Qed.
+
+(* _Z St <source-name> [<targs>] <type>* : functions of namespace std (std::sort<...>, std::move<...>, ...) *)
+Lemma std_unscoped_encoding_at : forall id n ta m ptxt F,
+  s = str "_ZSt" ++ src id ++ ta ++ ptxt ->
+  ident_okb id = true -> TA n ta -> PTys m ptxt -> no_dollar (id ++ ta ++ ptxt) -> L <= INT_MAX ->
+  (n + m + 10 <= F)%nat ->
+  run true s 0 F FEncoding (st0 L) = R 0 (NS L (Some (str "std::" ++ id)) 0 false).
+Proof.
+  intros id n ta m ptxt F Hs Hid Hta Hpar Hnd HL HF.
+  set (body := src id ++ ta ++ ptxt) in *.
+  assert (H0 : At 0 (95 :: 90 :: 83 :: 116 :: body)).
+  { unfold At. split; [ lia |]. split; [ unfold suffix; cbn [Z.add Z.to_nat skipn]; rewrite Hs; reflexivity |].
+    unfold flen. rewrite Hs. cbn [str app List.length]. lia. }
+  pose proof (At_cons _ _ _ H0) as H1. pose proof (At_cons _ _ _ H1) as H2. cbn [Z.add Pos.add] in H1, H2.
+  pose proof (At_cons _ _ _ (At_cons _ _ _ H2)) as H4. cbn [Z.add Pos.add] in H4.
+  destruct F as [| F1]; [ lia |]. destruct F1 as [| F2]; [ lia |]. destruct F2 as [| F3]; [ lia |].
+  set (pe := 4 + Z.of_nat (List.length (src id)) + Z.of_nat (List.length ta)).
+  assert (Hpe : At pe ptxt).
+  { unfold pe. apply (At_app _ ta). apply (At_app _ (src id)). exact H4. }
+  apply (encoding_generic_g 83 (116 :: body) (str "std::" ++ id) pe m ptxt F3 H0); try lia; try assumption.
+  change (run true s 0 (S (S F3)) FName) with (dd_name true s 0 (run true s 0 (S F3))).
+  unfold dd_name. unfold NS at 1.
+  erewrite bind_R; [| apply (curr_at _ (83 :: 116 :: body)); [ exact H2 | reflexivity ] ].
+  pose proof (At_lt _ _ _ H2).
+  rewrite bind_eof. stsimpl. rwf (2 >=? L). cbn [hd0]. chs. cbn [Z.eqb Pos.eqb].
+  pose proof (src_hd_digit id (ta ++ ptxt) Hid) as Hd. fold body in Hd.
+  fold (NS 2 None 1 true).
+  erewrite bind_R; [| apply (subst_abbr_at 2 None 1 true 116 (str "std") body); [ exact H2 | reflexivity | lia ] ].
+  cbn [Z.ltb Z.compare Z.add Pos.add]. unfold NS at 1.
+  erewrite bind_R; [| apply (curr_at _ body); [ exact H4 | reflexivity ] ].
+  rwf (hd0 body =? 73).
+  destruct F3 as [| F4]; [ lia |].
+  assert (HB : hd0 (ta ++ ptxt) <> 66).
+  { destruct (TA_hd n ta Hta) as [E1 | [r E1]]; subst ta; cbn [app hd0]; [| lia ]. destruct (PTys_follow m ptxt Hpar). assumption. }
+  change (mkst 4 L (add_out (sep_out None true) (str "std")) 0 1 0 false false false false)
+    with (NS 4 (Some (str "std")) 1 false).
+  erewrite bind_R; [| apply (unq_src (S F4) 4 (Some (str "std")) 1 false id (ta ++ ptxt)); assumption ].
+  cbn [Z.ltb Z.compare].
+  change (NS (4 + Z.of_nat (List.length (src id))) (add_out (sep_out (Some (str "std")) false) id) 1 false)
+    with (G (4 + Z.of_nat (List.length (src id))) (Some (str "std::" ++ id)) 1 0 0 false).
+  rewrite (targs_cont n ta (S (S F4)) _ _ 1 0 0 false ptxt 0 Hta (proj1 (proj2 grammar_walk) n ta Hta) ltac:(lia)
+             (At_src_tail _ _ _ H4) (proj1 (PTys_follow m ptxt Hpar)) ltac:(lia) eq_refl).
+  reflexivity.
+Qed.
+
+(* ================================================================ Rust legacy `$` escapes and `..` *)
+Definition ao (o : option (list Z)) (t : list Z) : option (list Z) := Some (match o with None => t | Some y => y ++ t end).
+(* state while a name is being appended: first_name = false *)
+Notation St p o lv := (NS p o lv false).
+
+Definition plain_txt (t : list Z) : Prop := Forall (fun c => c <> 46 /\ c <> 36) t.     (* no '.', no '$' *)
+
+Lemma index_of2_skip : forall t r, Forall (fun c => c <> 46) t -> index_of2 46 46 (t ++ 46 :: 46 :: r) = Some (Z.of_nat (List.length t)).
+Proof.
+  induction t as [| a t IH]; intros r H.
+  - reflexivity.
+  - inversion H; subst. cbn [app index_of2 List.length].
+    destruct (t ++ 46 :: 46 :: r) as [| b r'] eqn:E; [ destruct t; discriminate |].
+    rwf (a =? 46). cbn [andb]. rewrite <- E. rewrite (IH r H3). f_equal. lia.
+Qed.
+Lemma index_of2_far : forall t c r, Forall (fun x => x <> 46) t -> c <> 46 ->
+  match index_of2 46 46 (t ++ c :: r) with None => True | Some d => Z.of_nat (List.length t) < d end.
+Proof.
+  induction t as [| a t IH]; intros c r H Hc.
+  - cbn [app index_of2 List.length]. destruct r as [| b r']; [ exact I |].
+    rwf (c =? 46). cbn [andb]. destruct (index_of2 46 46 (b :: r')) as [k |] eqn:E; [| exact I ].
+    assert (0 <= k). { clear - E. revert k E. generalize (b :: r'). induction l as [| x l IHl]; intros k E; [ discriminate |].
+      cbn [index_of2] in E. destruct l as [| y l']; [ discriminate |]. destruct ((x =? 46) && (y =? 46)); [ inversion E; lia |].
+      destruct (index_of2 46 46 (y :: l')) as [k' |]; [| discriminate ]. inversion E. specialize (IHl k' eq_refl). lia. }
+    cbn. lia.
+  - inversion H; subst. cbn [app index_of2 List.length].
+    destruct (t ++ c :: r) as [| b r'] eqn:E; [ destruct t; discriminate |].
+    rwf (a =? 46). cbn [andb]. rewrite <- E. specialize (IH c r H3 Hc).
+    destruct (index_of2 46 46 (t ++ c :: r)) as [k |]; [| exact I ]. lia.
+Qed.
+Lemma index_of_first : forall t r, Forall (fun c => c <> 36) t -> index_of 36 (t ++ 36 :: r) = Some (Z.of_nat (List.length t)).
+Proof.
+  induction t as [| a t IH]; intros r H; [ reflexivity |].
+  inversion H; subst. cbn [app index_of List.length]. rwf (a =? 36). rewrite (IH r H3). f_equal. lia.
+Qed.
+Lemma index_of_ge : forall t r, Forall (fun c => c <> 36) t ->
+  match index_of 36 (t ++ r) with None => True | Some d => Z.of_nat (List.length t) <= d end.
+Proof.
+  induction t as [| a t IH]; intros r H.
+  - cbn [app List.length]. destruct (index_of 36 r) as [k |] eqn:E; [| exact I ].
+    clear - E. revert k E. induction r as [| x r IHr]; intros k E; [ discriminate |]. cbn [index_of] in E.
+    destruct (x =? 36); [ inversion E; cbn; lia |]. destruct (index_of 36 r) as [k' |]; [| discriminate ].
+    inversion E. specialize (IHr k' eq_refl). cbn in *. lia.
+  - inversion H; subst. cbn [app index_of List.length]. rwf (a =? 36). specialize (IH r H3).
+    destruct (index_of 36 (t ++ r)) as [k |]; [| exact I ]. lia.
+Qed.
+
+Lemma append_len_at : forall src p o lv t rest, At src (t ++ rest) ->
+  append_len s 0 src (Z.of_nat (List.length t)) (St p o lv) = R 0 (St p (ao o t) lv).
+Proof.
+  intros src p o lv t rest H. unfold append_len, valid_ptr. destruct H as [H0 [H1 H2]].
+  rewrite app_length in H2.
+  rwf (0 + src <? 0). rwt (0 + src <=? L). unfold NS. stsimpl. unfold slen. rewrite H1.
+  assert (Hf : firstn (Z.to_nat (Z.of_nat (List.length t))) (t ++ rest) = t).
+  { rewrite Nat2Z.id. rewrite firstn_app, Nat.sub_diag, firstn_all. cbn [firstn]. apply app_nil_r. }
+  rewrite Hf. set (n := Z.of_nat (List.length t)) in *. assert (0 <= n) by lia.
+  destruct o as [y |]; unfold ao.
+  - rwf (n + 1 <? 0). assert (E2 : (Z.of_nat (List.length y) + n <? 0) = false) by (apply Z.ltb_ge; lia). rewrite E2.
+    rwf (n >? L - 0 - src). rwf (n <? 0). reflexivity.
+  - rwf (n <? 0). rwf (n >? L - 0 - src). reflexivity.
+Qed.
+
+Lemma append_sep_at : forall p o lv, append_separator (str "::") (St p o lv) = R 0 (St p (ao o (str "::")) lv).
+Proof. intros p o lv. destruct o; reflexivity. Qed.
+Lemma append_lit_at : forall p o lv t, append t (St p o lv) = R 0 (St p (ao o t) lv).
+Proof. intros p o lv t. destruct o; reflexivity. Qed.
+
+Definition enc_pairs (ps : list (list Z)) : list Z := List.concat (map (fun t => t ++ [46; 46]) ps).
+Definition tr_pairs (o : option (list Z)) (ps : list (list Z)) : option (list Z) :=
+  fold_left (fun o t => ao (ao o t) (str "::")) ps o.
+
+Lemma dots_loop_at : forall ps K sep p o lv txt c rest,
+  Forall plain_txt ps -> plain_txt txt -> c <> 46 ->
+  At sep (enc_pairs ps ++ txt ++ c :: rest) -> (List.length ps < K)%nat ->
+  dots_loop s 0 K sep (sep + Z.of_nat (List.length (enc_pairs ps)) + Z.of_nat (List.length txt)) (St p o lv) =
+  R (sep + Z.of_nat (List.length (enc_pairs ps))) (St p (tr_pairs o ps) lv).
+Proof.
+  induction ps as [| t ps IH]; intros K sep p o lv txt c rest Hps Htxt Hc H HK.
+  - destruct K as [| K]; [ cbn in HK; lia |]. cbn [enc_pairs map List.concat app List.length tr_pairs fold_left] in *.
+    cbn [dots_loop]. chs. destruct H as [H0 [H1 H2]]. rewrite H1.
+    assert (Hnd : Forall (fun x => x <> 46) txt) by (eapply Forall_impl; [| exact Htxt ]; intros a [A _]; exact A).
+    pose proof (index_of2_far txt c rest Hnd Hc) as Hf.
+    replace (sep + Z.of_nat 0) with sep by lia.
+    destruct (index_of2 46 46 (txt ++ c :: rest)) as [d |]; [| reflexivity ].
+    rwt (sep + d >? sep + Z.of_nat (List.length txt)). reflexivity.
+  - destruct K as [| K]; [ cbn in HK; lia |]. inversion Hps as [| ? ? Ht Hps' ]; subst.
+    unfold enc_pairs in *. cbn [map List.concat] in *. rewrite <- !app_assoc in H. cbn [app] in H.
+    set (tailp := List.concat (map (fun t0 => t0 ++ [46; 46]) ps)) in *.
+    cbn [dots_loop]. chs. pose proof H as [H0 [H1 H2]]. rewrite H1.
+    assert (Hnd : Forall (fun x => x <> 46) t) by (eapply Forall_impl; [| exact Ht ]; intros a [A _]; exact A).
+    rewrite (index_of2_skip t (tailp ++ txt ++ c :: rest) Hnd).
+    repeat rewrite app_length. cbn [List.length].
+    match goal with |- context [if ?a >? ?b then _ else _] => rwf (a >? b) end. unfold bind.
+    replace (sep + Z.of_nat (List.length t) - sep) with (Z.of_nat (List.length t)) by lia.
+    rewrite (append_len_at sep p o lv t (46 :: 46 :: tailp ++ txt ++ c :: rest) H).
+    rewrite append_sep_at.
+    assert (H' : At (sep + Z.of_nat (List.length t) + 2) (tailp ++ txt ++ c :: rest)).
+    { replace (sep + Z.of_nat (List.length t) + 2) with (sep + Z.of_nat (List.length (t ++ [46; 46]))) by (rewrite app_length; cbn [List.length]; lia).
+      apply At_app. rewrite <- app_assoc. exact H. }
+    cbn [List.length] in HK.
+    replace (sep + Z.of_nat (List.length t) + 2) with (sep + Z.of_nat (List.length t) + 2) by lia.
+    pose proof (IH K (sep + Z.of_nat (List.length t) + 2) p (ao (ao o t) (str "::")) lv txt c rest Hps' Htxt Hc H' ltac:(lia)) as E.
+    fold tailp in E.
+    replace (sep + Z.of_nat (List.length t + 2 + List.length tailp) + Z.of_nat (List.length txt))
+      with (sep + Z.of_nat (List.length t) + 2 + Z.of_nat (List.length tailp) + Z.of_nat (List.length txt)) by lia.
+    rewrite E. cbn [tr_pairs fold_left]. f_equal. lia.
+Qed.
+
+(* one escape:  <text with ..>* $code$  *)
+Record rgroup := mkrg { rg_ps : list (list Z); rg_txt : list Z; rg_code : list Z; rg_punct : list Z }.
+Definition rblock (g : rgroup) : list Z := enc_pairs (rg_ps g) ++ rg_txt g.
+Definition enc_group (g : rgroup) : list Z := rblock g ++ 36 :: rg_code g ++ [36].
+Definition tr_group (o : option (list Z)) (g : rgroup) : option (list Z) :=
+  ao (ao (tr_pairs o (rg_ps g)) (rg_txt g)) (rg_punct g).
+Definition rgroup_ok (g : rgroup) : Prop :=
+  Forall plain_txt (rg_ps g) /\ plain_txt (rg_txt g) /\ In (rg_code g, rg_punct g) rust_mappings.
+
+Lemma mapping_found : forall code punct after, In (code, punct) rust_mappings ->
+  find_mapping rust_mappings (code ++ 36 :: after) = Some (code, punct).
+Proof.
+  intros code punct after H. unfold rust_mappings in H. cbn [In] in H.
+  repeat (destruct H as [H | H]; [ inversion H; subst; reflexivity |]). contradiction.
+Qed.
+Lemma mapping_len : forall code punct, In (code, punct) rust_mappings -> (1 <= List.length code <= 3)%nat /\ Forall (fun c => c <> 36) code.
+Proof.
+  intros code punct H. unfold rust_mappings in H. cbn [In] in H.
+  repeat (destruct H as [H | H]; [ inversion H; subst; split; [ cbn; lia | repeat constructor; discriminate ] |]). contradiction.
+Qed.
+
+Lemma rblock_nodollar : forall g, rgroup_ok g -> Forall (fun c => c <> 36) (rblock g).
+Proof.
+  intros g [Hps [Htxt _]]. unfold rblock. apply Forall_app. split.
+  - unfold enc_pairs. induction (rg_ps g) as [| t ps IH]; [ constructor |]. inversion Hps; subst.
+    cbn [map List.concat]. apply Forall_app. split; [| apply IH; assumption ].
+    apply Forall_app. split; [ eapply Forall_impl; [| eassumption ]; intros a [_ A]; exact A | repeat constructor; discriminate ].
+  - eapply Forall_impl; [| exact Htxt ]. intros a [_ A]. exact A.
+Qed.
+Lemma enc_pairs_len : forall ps, (List.length ps <= List.length (enc_pairs ps))%nat.
+Proof.
+  induction ps as [| t ps IH]; [ cbn; lia |]. unfold enc_pairs in *. cbn [map List.concat List.length].
+  repeat rewrite app_length. cbn [List.length]. lia.
+Qed.
+
+(* one iteration of the `$` loop *)
+Lemma dollar_step : forall k g p o lv after e,
+  rgroup_ok g -> At p (enc_group g ++ after) ->
+  p + Z.of_nat (List.length (enc_group g)) <= e -> e <= L ->
+  prefix_of (str "$u20$as$u20$") (36 :: rg_code g ++ 36 :: after) = false ->
+  dollar_loop true s 0 (S k) p (p + Z.of_nat (List.length (rblock g))) e (St p o lv) =
+  (let p' := p + Z.of_nat (List.length (enc_group g)) in
+   match strchr_from s 0 p' (ch "$") with
+   | Some d' => dollar_loop true s 0 k p' d' e
+   | None => ret p'
+   end) (St (p + Z.of_nat (List.length (enc_group g))) (tr_group o g) lv).
+Proof.
+  intros k g p o lv after e [Hps [Htxt Hin]] H He HeL Has.
+  destruct (mapping_len _ _ Hin) as [Hcl Hcnd].
+  set (dollar := p + Z.of_nat (List.length (rblock g))).
+  assert (Hlen : Z.of_nat (List.length (enc_group g)) = Z.of_nat (List.length (rblock g)) + Z.of_nat (List.length (rg_code g)) + 2).
+  { unfold enc_group. repeat rewrite app_length. cbn [List.length]. rewrite app_length. cbn [List.length]. lia. }
+  assert (Hrb : Z.of_nat (List.length (rblock g)) = Z.of_nat (List.length (enc_pairs (rg_ps g))) + Z.of_nat (List.length (rg_txt g)))
+    by (unfold rblock; rewrite app_length; lia).
+  cbn [dollar_loop]. rwf (negb (dollar <? e)).
+  unfold enc_group, rblock in H. rewrite <- !app_assoc in H. cbn [app] in H. rewrite <- !app_assoc in H.
+  unfold bind at 1.
+  assert (Hsl : (List.length (rg_ps g) < S (Z.to_nat (slen s 0)))%nat).
+  { pose proof (enc_pairs_len (rg_ps g)) as Hel. destruct H as [Ha [_ Hb]]. rewrite app_length in Hb. unfold slen, flen in *. lia. }
+  pose proof (dots_loop_at (rg_ps g) (S (Z.to_nat (slen s 0))) p p o lv (rg_txt g) 36 (rg_code g ++ [36] ++ after) Hps Htxt ltac:(discriminate) H Hsl) as Ed.
+  unfold dollar, rblock. rewrite app_length.
+  replace (p + Z.of_nat (List.length (enc_pairs (rg_ps g)) + List.length (rg_txt g)))
+    with (p + Z.of_nat (List.length (enc_pairs (rg_ps g))) + Z.of_nat (List.length (rg_txt g))) by lia.
+  rewrite Ed. unfold bind at 1.
+  replace (p + Z.of_nat (List.length (enc_pairs (rg_ps g))) + Z.of_nat (List.length (rg_txt g)) - (p + Z.of_nat (List.length (enc_pairs (rg_ps g)))))
+    with (Z.of_nat (List.length (rg_txt g))) by lia.
+  pose proof (At_app _ _ _ H) as H1.
+  rewrite (append_len_at _ p _ lv (rg_txt g) (36 :: rg_code g ++ [36] ++ after) H1).
+  pose proof (At_app _ _ _ H1) as H2.
+  set (dl := p + Z.of_nat (List.length (enc_pairs (rg_ps g))) + Z.of_nat (List.length (rg_txt g))) in *.
+  pose proof (At_cons _ _ _ H2) as H3.
+  destruct H3 as [H30 [H31 H32]]. rewrite H31.
+  change (rg_code g ++ [36] ++ after) with (rg_code g ++ 36 :: after).
+  rewrite (mapping_found _ _ after Hin). cbn [andb].
+  rwf (dl + Z.of_nat (List.length (rg_code g)) + 2 >? e).
+  destruct H2 as [H20 [H21 H22]]. rewrite H21.
+  change (36 :: rg_code g ++ [36] ++ after) with (36 :: rg_code g ++ 36 :: after). rewrite Has.
+  unfold bind at 1. rewrite append_lit_at.
+  unfold bind at 1.
+  assert (Hcn : consume_n s 0 (dl - p + Z.of_nat (List.length (rg_code g)) + 2) (St p (tr_group o g) lv)
+                = R (hd0 (enc_pairs (rg_ps g) ++ rg_txt g ++ 36 :: rg_code g ++ [36] ++ after))
+                    (St (p + Z.of_nat (List.length (enc_group g))) (tr_group o g) lv)).
+  { rewrite (consume_n_at _ _ (enc_pairs (rg_ps g) ++ rg_txt g ++ 36 :: rg_code g ++ [36] ++ after)); [| exact H | reflexivity |].
+    - unfold NS. stsimpl. f_equal. f_equal. unfold dl. lia.
+    - clear Ed. repeat rewrite app_length. cbn [List.length]. repeat rewrite app_length. cbn [List.length]. unfold dl. lia. }
+  change (ao (ao (tr_pairs o (rg_ps g)) (rg_txt g)) (rg_punct g)) with (tr_group o g).
+  rewrite Hcn. unfold bind at 1. unfold valid_ptr.
+  replace (p + (dl - p + Z.of_nat (List.length (rg_code g)) + 2)) with (p + Z.of_nat (List.length (enc_group g))) by (unfold dl; lia).
+  rwf (0 + (p + Z.of_nat (List.length (enc_group g))) <? 0). rwt (0 + (p + Z.of_nat (List.length (enc_group g))) <=? L).
+  cbv zeta. reflexivity.
+Qed.
+
+Definition enc_groups (gs : list rgroup) : list Z := List.concat (map enc_group gs).
+Definition tr_groups (o : option (list Z)) (gs : list rgroup) : option (list Z) := fold_left tr_group gs o.
+(* `$u20$as$u20$` is the one escape sequence with a meaning of its own: not inside the translated part *)
+Fixpoint noas (gs : list rgroup) (after : list Z) : Prop :=
+  match gs with
+  | [] => True
+  | g :: r => prefix_of (str "$u20$as$u20$") (36 :: rg_code g ++ 36 :: enc_groups r ++ after) = false /\ noas r after
+  end.
+
+Lemma enc_groups_len : forall gs, (List.length gs <= List.length (enc_groups gs))%nat.
+Proof.
+  induction gs as [| g gs IH]; [ cbn; lia |]. unfold enc_groups in *. cbn [map List.concat List.length].
+  set (X := List.concat (map enc_group gs)) in *. clearbody X.
+  rewrite app_length. unfold enc_group. repeat rewrite app_length. cbn [List.length]. lia.
+Qed.
+
+Lemma dollar_groups : forall gs k p o lv tl beyond,
+  Forall rgroup_ok gs -> Forall (fun c => c <> 36) tl ->
+  At p (enc_groups gs ++ tl ++ beyond) -> noas gs (tl ++ beyond) -> (List.length gs < k)%nat ->
+  match gs with
+  | [] => True
+  | g :: _ =>
+      let e := p + Z.of_nat (List.length (enc_groups gs)) + Z.of_nat (List.length tl) in
+      dollar_loop true s 0 k p (p + Z.of_nat (List.length (rblock g))) e (St p o lv) =
+      R (p + Z.of_nat (List.length (enc_groups gs)))
+        (St (p + Z.of_nat (List.length (enc_groups gs))) (tr_groups o gs) lv)
+  end.
+Proof.
+  induction gs as [| g gs IH]; intros k p o lv tl beyond Hok Htl H Hna Hk; [ exact I |].
+  inversion Hok as [| ? ? Hg Hgs ]; subst. destruct Hna as [Hna1 Hna2].
+  destruct k as [| k]; [ lia |]. cbn [List.length] in Hk. cbv zeta.
+  unfold enc_groups in *. cbn [map List.concat] in *. fold (enc_groups gs) in *.
+  rewrite <- app_assoc in H.
+  set (e := p + Z.of_nat (List.length (enc_group g ++ enc_groups gs)) + Z.of_nat (List.length tl)).
+  assert (HeL : e <= L).
+  { destruct H as [_ [_ HH]]. unfold e. repeat rewrite app_length in *. lia. }
+  rewrite (dollar_step k g p o lv (enc_groups gs ++ tl ++ beyond) e Hg H); [| unfold e; rewrite app_length; lia | exact HeL | exact Hna1 ].
+  cbv zeta. set (p' := p + Z.of_nat (List.length (enc_group g))).
+  pose proof (At_app _ _ _ H) as H'. fold p' in H'.
+  unfold strchr_from. chs. destruct H' as [H'0 [H'1 H'2]]. rewrite H'1.
+  destruct gs as [| g2 gs2].
+  - cbn [enc_groups map List.concat app List.length] in *. cbn [tr_groups fold_left].
+    pose proof (index_of_ge tl beyond Htl) as Hi.
+    replace (p + Z.of_nat (List.length (enc_group g ++ []))) with p' by (rewrite app_nil_r; reflexivity).
+    destruct (index_of 36 (tl ++ beyond)) as [d |]; [| reflexivity ].
+    destruct k as [| k']; [ lia |]. cbn [dollar_loop].
+    assert (Ege : negb (p' + d <? e) = true).
+    { unfold e. rewrite app_nil_r. fold p'. apply negb_true_iff. apply Z.ltb_ge. lia. }
+    rewrite Ege. reflexivity.
+  - inversion Hgs as [| ? ? Hg2 _ ]; subst.
+    unfold enc_groups at 1. cbn [map List.concat]. fold (enc_groups gs2).
+    unfold enc_group at 1. rewrite <- !app_assoc. cbn [app].
+    rewrite (index_of_first (rblock g2) _ (rblock_nodollar g2 Hg2)).
+    assert (H2 : At p' (enc_groups (g2 :: gs2) ++ tl ++ beyond)) by (split; [ exact H'0 | split; [ exact H'1 | exact H'2 ] ]).
+    pose proof (IH k p' (tr_group o g) lv tl beyond Hgs Htl H2 Hna2 ltac:(cbn [List.length] in *; lia)) as E.
+    cbv zeta in E.
+    replace e with (p' + Z.of_nat (List.length (enc_groups (g2 :: gs2))) + Z.of_nat (List.length tl))
+      by (unfold e, p'; rewrite app_length; lia).
+    rewrite E. cbn [tr_groups fold_left]. f_equal.
+    + unfold p'. rewrite app_length. lia.
+    + unfold NS. f_equal. unfold p'. rewrite app_length. lia.
+Qed.
+
+(* the ` as Trait` ending:  <text/..>* $u20$as$u20$ <anything>  prints ">" and skips to the end of the component *)
+Definition AS : list Z := str "$u20$as$u20$".
+Definition asblock (ps : list (list Z)) (txt asrest : list Z) : list Z := enc_pairs ps ++ txt ++ AS ++ asrest.
+
+Lemma prefix_of_app : forall a b, prefix_of a (a ++ b) = true.
+Proof. induction a as [| x a IH]; intros b; [ reflexivity |]. cbn [app prefix_of]. rewrite Z.eqb_refl, IH. reflexivity. Qed.
+
+Lemma dollar_as_step : forall k p o lv ps txt asrest beyond,
+  Forall plain_txt ps -> plain_txt txt -> At p (asblock ps txt asrest ++ beyond) ->
+  let e := p + Z.of_nat (List.length (asblock ps txt asrest)) in
+  dollar_loop true s 0 (S (S k)) p (p + Z.of_nat (List.length (enc_pairs ps)) + Z.of_nat (List.length txt)) e (St p o lv) =
+  R e (St e (ao (ao (tr_pairs o ps) txt) (str ">")) lv).
+Proof.
+  intros k p o lv ps txt asrest beyond Hps Htxt H e.
+  set (dl := p + Z.of_nat (List.length (enc_pairs ps)) + Z.of_nat (List.length txt)).
+  assert (Hlen : Z.of_nat (List.length (asblock ps txt asrest)) =
+                 Z.of_nat (List.length (enc_pairs ps)) + Z.of_nat (List.length txt) + 12 + Z.of_nat (List.length asrest)).
+  { unfold asblock. repeat rewrite app_length. change (List.length AS) with 12%nat. lia. }
+  assert (HeL : e <= L). { destruct H as [_ [_ HH]]. rewrite app_length in HH. unfold e. lia. }
+  cbn [dollar_loop]. rwf (negb (dl <? e)).
+  unfold asblock in H. rewrite <- !app_assoc in H.
+  unfold bind at 1.
+  assert (Hsl : (List.length ps < S (Z.to_nat (slen s 0)))%nat).
+  { pose proof (enc_pairs_len ps) as Hel. destruct H as [Ha [_ Hb]]. rewrite app_length in Hb. unfold slen, flen in *. lia. }
+  assert (H' : At p (enc_pairs ps ++ txt ++ 36 :: (str "u20$as$u20$" ++ asrest ++ beyond))) by exact H.
+  pose proof (dots_loop_at ps (S (Z.to_nat (slen s 0))) p p o lv txt 36 (str "u20$as$u20$" ++ asrest ++ beyond) Hps Htxt ltac:(discriminate) H' Hsl) as Ed.
+  fold dl in Ed. rewrite Ed. unfold bind at 1.
+  replace (dl - (p + Z.of_nat (List.length (enc_pairs ps)))) with (Z.of_nat (List.length txt)) by (unfold dl; lia).
+  pose proof (At_app _ _ _ H') as H1.
+  rewrite (append_len_at _ p _ lv txt _ H1).
+  pose proof (At_app _ _ _ H1) as H2. fold dl in H2.
+  pose proof (At_cons _ _ _ H2) as H3.
+  destruct H3 as [H30 [H31 H32]]. rewrite H31.
+  change (str "u20$as$u20$" ++ asrest ++ beyond) with (str "u20" ++ 36 :: (str "as$u20$" ++ asrest ++ beyond)).
+  rewrite (mapping_found (str "u20") (str " ") _ ltac:(unfold rust_mappings; cbn [In]; tauto)). cbn [andb List.length str].
+  rwf (dl + Z.of_nat 3 + 2 >? e).
+  destruct H2 as [H20 [H21 H22]]. rewrite H21.
+  repeat match goal with |- context [prefix_of ?a ?b] => replace (prefix_of a b) with true by reflexivity end.
+  change [ch ">"] with (str ">").
+  unfold bind at 1. rewrite append_lit_at. unfold bind at 1.
+  assert (Hcn : consume_n s 0 (dl - p + (e - dl)) (St p (ao (ao (tr_pairs o ps) txt) (str ">")) lv)
+                = R (hd0 (enc_pairs ps ++ txt ++ AS ++ asrest ++ beyond)) (St e (ao (ao (tr_pairs o ps) txt) (str ">")) lv)).
+  { rewrite (consume_n_at _ _ (enc_pairs ps ++ txt ++ AS ++ asrest ++ beyond)); [| exact H | reflexivity |].
+    - unfold NS. stsimpl. f_equal. f_equal. lia.
+    - repeat rewrite app_length. change (List.length AS) with 12%nat. unfold dl, e. lia. }
+  rewrite Hcn. unfold bind at 1. unfold valid_ptr.
+  replace (p + (dl - p + (e - dl))) with e by lia.
+  assert (He0 : 0 <= e) by (destruct H as [Ha _]; unfold e; lia).
+  rwf (0 + e <? 0). rwt (0 + e <=? L).
+  assert (Hbe : At e beyond).
+  { unfold e. replace (enc_pairs ps ++ txt ++ AS ++ asrest ++ beyond) with (asblock ps txt asrest ++ beyond) in H
+      by (unfold asblock; rewrite <- !app_assoc; reflexivity). apply At_app. exact H. }
+  unfold strchr_from. destruct Hbe as [Hb0 [Hb1 Hb2]]. rewrite Hb1. chs.
+  pose proof (index_of_ge [] beyond (Forall_nil _)) as Ei. cbn [app List.length] in Ei.
+  destruct (index_of 36 beyond) as [d |]; [| reflexivity ].
+  cbn [dollar_loop]. assert (Ege : negb (e + d <? e) = true) by (apply negb_true_iff; apply Z.ltb_ge; lia).
+  rewrite Ege. reflexivity.
+Qed.
+
+Lemma asblock_first_dollar : forall ps txt asrest beyond, Forall plain_txt ps -> plain_txt txt ->
+  index_of 36 (asblock ps txt asrest ++ beyond) = Some (Z.of_nat (List.length (enc_pairs ps)) + Z.of_nat (List.length txt)).
+Proof.
+  intros ps txt asrest beyond Hps Htxt. unfold asblock. rewrite <- !app_assoc.
+  replace (enc_pairs ps ++ txt ++ AS ++ asrest ++ beyond) with ((enc_pairs ps ++ txt) ++ 36 :: (str "u20$as$u20$" ++ asrest ++ beyond))
+    by (rewrite <- app_assoc; reflexivity).
+  rewrite index_of_first; [ rewrite app_length; f_equal; lia |].
+  pose proof (rblock_nodollar (mkrg ps txt (str "C") (str ",")) ltac:(repeat split; try assumption; unfold rust_mappings; cbn [In]; tauto)) as Hb.
+  exact Hb.
+Qed.
+
+Lemma dollar_groups_as : forall gs k p o lv ps txt asrest beyond,
+  Forall rgroup_ok gs -> Forall plain_txt ps -> plain_txt txt ->
+  At p (enc_groups gs ++ asblock ps txt asrest ++ beyond) -> noas gs (asblock ps txt asrest ++ beyond) ->
+  (List.length gs + 1 < k)%nat ->
+  let e := p + Z.of_nat (List.length (enc_groups gs)) + Z.of_nat (List.length (asblock ps txt asrest)) in
+  let d0 := match gs with [] => p + Z.of_nat (List.length (enc_pairs ps)) + Z.of_nat (List.length txt)
+                        | g :: _ => p + Z.of_nat (List.length (rblock g)) end in
+  dollar_loop true s 0 k p d0 e (St p o lv) =
+  R e (St e (ao (ao (tr_pairs (tr_groups o gs) ps) txt) (str ">")) lv).
+Proof.
+  induction gs as [| g gs IH]; intros k p o lv ps txt asrest beyond Hok Hps Htxt H Hna Hk; cbv zeta.
+  - cbn [enc_groups map List.concat app List.length tr_groups fold_left] in *.
+    destruct k as [| [| k]]; try lia.
+    replace (p + Z.of_nat 0 + Z.of_nat (List.length (asblock ps txt asrest))) with (p + Z.of_nat (List.length (asblock ps txt asrest))) by lia.
+    apply (dollar_as_step k p o lv ps txt asrest beyond Hps Htxt H).
+  - inversion Hok as [| ? ? Hg Hgs ]; subst. destruct Hna as [Hna1 Hna2].
+    destruct k as [| k]; [ lia |]. cbn [List.length] in Hk.
+    unfold enc_groups in *. cbn [map List.concat] in *. fold (enc_groups gs) in *.
+    rewrite <- app_assoc in H.
+    set (e := p + Z.of_nat (List.length (enc_group g ++ enc_groups gs)) + Z.of_nat (List.length (asblock ps txt asrest))).
+    assert (HeL : e <= L).
+    { destruct H as [_ [_ HH]]. unfold e. repeat rewrite app_length in *. lia. }
+    rewrite (dollar_step k g p o lv (enc_groups gs ++ asblock ps txt asrest ++ beyond) e Hg H); [| unfold e; rewrite app_length; lia | exact HeL | exact Hna1 ].
+    cbv zeta. set (p' := p + Z.of_nat (List.length (enc_group g))).
+    pose proof (At_app _ _ _ H) as H'. fold p' in H'.
+    assert (Heq : e = p' + Z.of_nat (List.length (enc_groups gs)) + Z.of_nat (List.length (asblock ps txt asrest)))
+      by (unfold e, p'; rewrite app_length; lia).
+    pose proof (IH k p' (tr_group o g) lv ps txt asrest beyond Hgs Hps Htxt H' Hna2 ltac:(lia)) as E. cbv zeta in E.
+    rewrite <- Heq in E.
+    unfold strchr_from. chs. pose proof H' as [H'0 [H'1 H'2]]. rewrite H'1.
+    destruct gs as [| g2 gs2].
+    + cbn [enc_groups map List.concat app] in *. rewrite (asblock_first_dollar ps txt asrest beyond Hps Htxt).
+      replace (p' + (Z.of_nat (List.length (enc_pairs ps)) + Z.of_nat (List.length txt)))
+        with (p' + Z.of_nat (List.length (enc_pairs ps)) + Z.of_nat (List.length txt)) by lia.
+      rewrite E. cbn [tr_groups fold_left]. reflexivity.
+    + inversion Hgs as [| ? ? Hg2 _ ]; subst.
+      unfold enc_groups at 1. cbn [map List.concat]. fold (enc_groups gs2).
+      unfold enc_group at 1. rewrite <- !app_assoc. cbn [app].
+      rewrite (index_of_first (rblock g2) _ (rblock_nodollar g2 Hg2)).
+      rewrite E. cbn [tr_groups fold_left]. reflexivity.
+Qed.
+
+(* a component with escapes:  <number> ( <text/..>* $code$ )+ <tail>  *)
+Definition rd_text (gs : list rgroup) (tl : list Z) : list Z := enc_groups gs ++ tl.
+Definition rd_ok (gs : list rgroup) (tl rest : list Z) : Prop :=
+  gs <> [] /\ Forall rgroup_ok gs /\ Forall (fun c => c <> 36) tl /\ starts_nondigit (rd_text gs tl) /\
+  0 < Z.of_nat (List.length (rd_text gs tl)) < 1000000000 /\
+  ((Z.of_nat (List.length (rd_text gs tl)) =? 17) && hash17 (rd_text gs tl)) = false /\
+  noas gs (tl ++ rest).
+Definition rd_src (gs : list rgroup) (tl : list Z) : list Z := dec (Z.of_nat (List.length (rd_text gs tl))) ++ rd_text gs tl.
+
+Lemma append_separator_at : forall p o lv fnm,
+  append_separator (str "::") (NS p o lv fnm) = R 0 (St p (sep_out o fnm) lv).
+Proof. intros p o lv fnm. destruct fnm, o; reflexivity. Qed.
+
+Lemma source_name_dollar_at : forall p o lv fnm gs tl rest,
+  At p (rd_src gs tl ++ rest) -> rd_ok gs tl rest ->
+  dd_source_name true s 0 (NS p o lv fnm) =
+  R 0 (St (p + Z.of_nat (List.length (rd_src gs tl))) (ao (tr_groups (sep_out o fnm) gs) tl) lv).
+Proof.
+  intros p o lv fnm gs tl rest H [Hne [Hok [Htl [Hsn [Hn [Hh Hna]]]]]].
+  assert (Hsn2 : starts_nondigit (rd_text gs tl ++ rest)).
+  { clear - Hsn Hn. destruct (rd_text gs tl) as [| x c']; [ cbn [List.length] in Hn; lia | exact Hsn ]. }
+  set (c := rd_text gs tl) in *. set (n := Z.of_nat (List.length c)) in *.
+  assert (Hndef : n = Z.of_nat (List.length c)) by reflexivity.
+  unfold rd_src in *. fold c in H. fold n in H. fold c. fold n. rewrite <- app_assoc in H.
+  unfold dd_source_name. unfold NS at 1.
+  erewrite bind_R; [| apply (number_at _ n (c ++ rest)); [ exact H | reflexivity | exact Hn | exact Hsn2 ] ].
+  rwf (n <? 0).
+  apply At_app in H. set (p0 := p + Z.of_nat (List.length (dec n))) in *.
+  stsimpl. fold p0.
+  assert (Hfin : p + Z.of_nat (List.length (dec n ++ c)) = p0 + n) by (rewrite app_length; unfold p0; lia).
+  rewrite Hfin. clearbody p0.
+  assert (Hp0n : p0 + n <= L) by (destruct H as [H0 [H1 H2]]; rewrite app_length in H2; lia).
+  pose proof (At_le _ _ H) as Hp0r.
+  rewrite bind_eof. stsimpl. rwf (p0 >=? L).
+  rewrite bind_gets, bind_gets. stsimpl. cbn [Z.eqb negb andb]. rwf (n >? L - p0).
+  rewrite bind_gets, bind_getb, bind_gets. stsimpl. cbn [Z.eqb negb andb orb].
+  assert (Hh2 : ((n =? 17) && hash17 (suffix s 0 p0)) = false).
+  { destruct H as [H0 [H1 H2]]. rewrite H1. destruct (n =? 17) eqn:E17; [| reflexivity ]. cbn [andb] in *.
+    rewrite hash17_app by lia. exact Hh. }
+  rewrite Hh2.
+  change (mkst p0 L o 0 lv 0 false fnm false false) with (NS p0 o lv fnm).
+  unfold bind at 1. rewrite append_separator_at.
+  (* the first '$' *)
+  destruct gs as [| g gs']; [ contradiction |].
+  inversion Hok as [| ? ? Hg Hgs ]; subst.
+  assert (Hc : c = rblock g ++ 36 :: rg_code g ++ 36 :: enc_groups gs' ++ tl).
+  { unfold c, rd_text. change (enc_groups (g :: gs')) with (enc_group g ++ enc_groups gs'). unfold enc_group at 1.
+    repeat (rewrite <- app_assoc; cbn [app]). reflexivity. }
+  assert (Hsc : strchr_from s 0 p0 (ch "$") = Some (p0 + Z.of_nat (List.length (rblock g)))).
+  { unfold strchr_from. chs. destruct H as [H0 [H1 H2]]. rewrite H1, Hc. rewrite <- app_assoc. cbn [app].
+    rewrite (index_of_first (rblock g) _ (rblock_nodollar g Hg)). reflexivity. }
+  rewrite Hsc.
+  assert (Hbl : Z.of_nat (List.length (rblock g)) < n).
+  { rewrite Hndef, Hc. repeat rewrite app_length. cbn [List.length]. lia. }
+  rwf (p0 + Z.of_nat (List.length (rblock g)) >? p0 + n).
+  assert (Hgl : (List.length (g :: gs') < S (Z.to_nat (slen s 0)))%nat).
+  { pose proof (enc_groups_len (g :: gs')) as Hel. destruct H as [Ha [_ Hb]]. unfold c, rd_text in Hb. repeat rewrite app_length in Hb.
+    unfold slen, flen in *. lia. }
+  assert (Hat : At p0 (enc_groups (g :: gs') ++ tl ++ rest)) by (unfold c, rd_text in H; rewrite <- app_assoc in H; exact H).
+  pose proof (dollar_groups (g :: gs') (S (Z.to_nat (slen s 0))) p0 (sep_out o fnm) lv tl rest Hok Htl Hat Hna Hgl) as E.
+  cbv zeta in E.
+  assert (Hn2 : n = Z.of_nat (List.length (enc_groups (g :: gs'))) + Z.of_nat (List.length tl)).
+  { rewrite Hndef. unfold c, rd_text. rewrite app_length. lia. }
+  replace (p0 + n) with (p0 + Z.of_nat (List.length (enc_groups (g :: gs'))) + Z.of_nat (List.length tl)) by lia.
+  unfold bind at 1. rewrite E.
+  set (pf := p0 + Z.of_nat (List.length (enc_groups (g :: gs')))) in *.
+  replace (pf + Z.of_nat (List.length tl) - pf) with (Z.of_nat (List.length tl)) by lia.
+  assert (Hpf : At pf (tl ++ rest)) by (unfold pf; apply At_app; exact Hat).
+  unfold bind at 1. rewrite (append_len_at pf pf _ lv tl rest Hpf).
+  unfold bind at 1.
+  rewrite (consume_n_at _ (Z.of_nat (List.length tl)) (tl ++ rest)); [| exact Hpf | reflexivity | rewrite app_length; lia ].
+  reflexivity.
+Qed.
+
+(* ... ending in ` as Trait` *)
+Definition ra_text (gs : list rgroup) (ps : list (list Z)) (txt asrest : list Z) : list Z := enc_groups gs ++ asblock ps txt asrest.
+Definition ra_ok (gs : list rgroup) (ps : list (list Z)) (txt asrest rest : list Z) : Prop :=
+  Forall rgroup_ok gs /\ Forall plain_txt ps /\ plain_txt txt /\ starts_nondigit (ra_text gs ps txt asrest) /\
+  0 < Z.of_nat (List.length (ra_text gs ps txt asrest)) < 1000000000 /\
+  ((Z.of_nat (List.length (ra_text gs ps txt asrest)) =? 17) && hash17 (ra_text gs ps txt asrest)) = false /\
+  noas gs (asblock ps txt asrest ++ rest).
+Definition ra_src (gs : list rgroup) (ps : list (list Z)) (txt asrest : list Z) : list Z :=
+  dec (Z.of_nat (List.length (ra_text gs ps txt asrest))) ++ ra_text gs ps txt asrest.
+
+Lemma source_name_dollar_as_at : forall p o lv fnm gs ps txt asrest rest,
+  At p (ra_src gs ps txt asrest ++ rest) -> ra_ok gs ps txt asrest rest ->
+  dd_source_name true s 0 (NS p o lv fnm) =
+  R 0 (St (p + Z.of_nat (List.length (ra_src gs ps txt asrest))) (ao (ao (tr_pairs (tr_groups (sep_out o fnm) gs) ps) txt) (str ">")) lv).
+Proof.
+  intros p o lv fnm gs ps txt asrest rest H [Hok [Hps [Htxt [Hsn [Hn [Hh Hna]]]]]].
+  assert (Hsn2 : starts_nondigit (ra_text gs ps txt asrest ++ rest)).
+  { clear - Hsn Hn. destruct (ra_text gs ps txt asrest) as [| x c']; [ cbn [List.length] in Hn; lia | exact Hsn ]. }
+  set (c := ra_text gs ps txt asrest) in *. set (n := Z.of_nat (List.length c)) in *.
+  assert (Hndef : n = Z.of_nat (List.length c)) by reflexivity.
+  unfold ra_src in *. fold c in H. fold n in H. fold c. fold n. rewrite <- app_assoc in H.
+  unfold dd_source_name. unfold NS at 1.
+  erewrite bind_R; [| apply (number_at _ n (c ++ rest)); [ exact H | reflexivity | exact Hn | exact Hsn2 ] ].
+  rwf (n <? 0).
+  apply At_app in H. set (p0 := p + Z.of_nat (List.length (dec n))) in *.
+  stsimpl. fold p0.
+  assert (Hfin : p + Z.of_nat (List.length (dec n ++ c)) = p0 + n) by (rewrite app_length; unfold p0; lia).
+  rewrite Hfin. clearbody p0.
+  assert (Hp0n : p0 + n <= L) by (destruct H as [H0 [H1 H2]]; rewrite app_length in H2; lia).
+  pose proof (At_le _ _ H) as Hp0r.
+  rewrite bind_eof. stsimpl. rwf (p0 >=? L).
+  rewrite bind_gets, bind_gets. stsimpl. cbn [Z.eqb negb andb]. rwf (n >? L - p0).
+  rewrite bind_gets, bind_getb, bind_gets. stsimpl. cbn [Z.eqb negb andb orb].
+  assert (Hh2 : ((n =? 17) && hash17 (suffix s 0 p0)) = false).
+  { destruct H as [H0 [H1 H2]]. rewrite H1. destruct (n =? 17) eqn:E17; [| reflexivity ]. cbn [andb] in *.
+    rewrite hash17_app by lia. exact Hh. }
+  rewrite Hh2.
+  change (mkst p0 L o 0 lv 0 false fnm false false) with (NS p0 o lv fnm).
+  unfold bind at 1. rewrite append_separator_at.
+  (* the first '$' *)
+  assert (Hat : At p0 (enc_groups gs ++ asblock ps txt asrest ++ rest)) by (unfold c, ra_text in H; rewrite <- app_assoc in H; exact H).
+  set (d0 := match gs with [] => p0 + Z.of_nat (List.length (enc_pairs ps)) + Z.of_nat (List.length txt)
+                        | g :: _ => p0 + Z.of_nat (List.length (rblock g)) end).
+  assert (Hn2 : n = Z.of_nat (List.length (enc_groups gs)) + Z.of_nat (List.length (asblock ps txt asrest))).
+  { rewrite Hndef. unfold c, ra_text. rewrite app_length. lia. }
+  assert (Hsc : strchr_from s 0 p0 (ch "$") = Some d0 /\ d0 < p0 + n).
+  { unfold strchr_from. chs. destruct H as [H0 [H1 H2]]. rewrite H1. unfold c, ra_text. rewrite <- app_assoc.
+    destruct gs as [| g gs'].
+    - cbn [enc_groups map List.concat app]. rewrite (asblock_first_dollar ps txt asrest rest Hps Htxt). unfold d0.
+      split; [ f_equal; lia |]. cbn [enc_groups map List.concat List.length] in Hn2. unfold asblock in Hn2.
+      repeat rewrite app_length in Hn2. change (List.length AS) with 12%nat in Hn2. lia.
+    - inversion Hok as [| ? ? Hg Hgs ]; subst.
+      unfold enc_groups at 1. cbn [map List.concat]. fold (enc_groups gs'). unfold enc_group at 1. rewrite <- !app_assoc. cbn [app].
+      rewrite (index_of_first (rblock g) _ (rblock_nodollar g Hg)). unfold d0. split; [ reflexivity |].
+      unfold enc_groups in Hn2. cbn [map List.concat] in Hn2. unfold enc_group at 1 in Hn2. repeat rewrite app_length in Hn2. cbn [List.length] in Hn2. lia. }
+  destruct Hsc as [Hsc Hd0]. rewrite Hsc.
+  rwf (d0 >? p0 + n).
+  assert (Hgl : (List.length gs + 1 < S (Z.to_nat (slen s 0)))%nat).
+  { pose proof (enc_groups_len gs) as Hel. destruct H as [Ha [_ Hb]]. unfold c, ra_text, asblock in Hb. repeat rewrite app_length in Hb.
+    change (List.length AS) with 12%nat in Hb. unfold slen, flen in *. lia. }
+  pose proof (dollar_groups_as gs (S (Z.to_nat (slen s 0))) p0 (sep_out o fnm) lv ps txt asrest rest Hok Hps Htxt Hat Hna Hgl) as E.
+  cbv zeta in E. fold d0 in E.
+  replace (p0 + n) with (p0 + Z.of_nat (List.length (enc_groups gs)) + Z.of_nat (List.length (asblock ps txt asrest))) by lia.
+  unfold bind at 1. rewrite E.
+  set (pf := p0 + Z.of_nat (List.length (enc_groups gs)) + Z.of_nat (List.length (asblock ps txt asrest))) in *.
+  replace (pf - pf) with (Z.of_nat (List.length (@nil Z))) by (cbn; lia).
+  assert (Hpf : At pf ([] ++ rest)).
+  { unfold pf. cbn [app]. replace (p0 + Z.of_nat (List.length (enc_groups gs)) + Z.of_nat (List.length (asblock ps txt asrest)))
+      with (p0 + Z.of_nat (List.length (enc_groups gs ++ asblock ps txt asrest))) by (rewrite app_length; lia).
+    apply At_app. rewrite <- app_assoc. exact Hat. }
+  unfold bind at 1. rewrite (append_len_at pf pf _ lv [] rest Hpf).
+  unfold bind at 1.
+  rewrite (consume_n_at _ (Z.of_nat (List.length (@nil Z))) ([] ++ rest)); [| exact Hpf | reflexivity | cbn [List.length app]; lia ].
+  unfold NS, ao. stsimpl. cbn [List.length]. replace (pf + Z.of_nat 0) with pf by lia.
+  destruct (tr_pairs (tr_groups (sep_out o fnm) gs) ps) as [y |]; rewrite ?app_nil_r; reflexivity.
+Qed.
+
+(* ---- a plain component inside a name that has `$` elsewhere *)
+Lemma source_name_plain2 : forall p o lv fnm id rest,
+  At p (src id ++ rest) -> ident_okb id = true ->
+  dd_source_name true s 0 (NS p o lv fnm) =
+  R 0 (St (p + Z.of_nat (List.length (src id))) (add_out (sep_out o fnm) id) lv).
+Proof.
+  intros p o lv fnm id rest H Hid.
+  set (n := Z.of_nat (List.length id)).
+  assert (Hndef : n = Z.of_nat (List.length id)) by reflexivity.
+  pose proof (ident_len id Hid) as Hn. fold n in Hn.
+  unfold src in *. fold n in H. fold n. rewrite <- app_assoc in H.
+  unfold dd_source_name. unfold NS at 1.
+  erewrite bind_R; [| apply (number_at _ n (id ++ rest)); [ exact H | reflexivity | exact Hn
+                                                          | apply ident_starts_nondigit; exact Hid ] ].
+  rwf (n <? 0).
+  apply At_app in H. set (p0 := p + Z.of_nat (List.length (dec n))) in *.
+  stsimpl. fold p0.
+  assert (Hfin : p + Z.of_nat (List.length (dec n ++ id)) = p0 + n) by (rewrite app_length; unfold p0; lia).
+  rewrite Hfin. clearbody p0.
+  assert (Hp0n : p0 + n <= L) by (destruct H as [H0 [H1 H2]]; rewrite app_length in H2; lia).
+  pose proof (At_le _ _ H) as Hp0r.
+  rewrite bind_eof. stsimpl. rwf (p0 >=? L).
+  rewrite bind_gets, bind_gets. stsimpl. cbn [Z.eqb negb andb]. rwf (n >? L - p0).
+  rewrite bind_gets, bind_getb, bind_gets. stsimpl. cbn [Z.eqb negb andb orb].
+  assert (Hh : ((n =? 17) && hash17 (suffix s 0 p0)) = false).
+  { destruct H as [H0 [H1 H2]]. rewrite H1. pose proof (ident_nohash id Hid) as Hnh. rewrite <- Hndef in Hnh.
+    destruct (n =? 17) eqn:E17; [| reflexivity ]. cbn [andb] in *. rewrite hash17_app by lia. exact Hnh. }
+  rewrite Hh.
+  change (mkst p0 L o 0 lv 0 false fnm false false) with (NS p0 o lv fnm).
+  unfold bind at 1. rewrite append_separator_at.
+  assert (Hsimple : (append_len s 0 p0 n;;; consume_n s 0 n;;; ret 0) (St p0 (sep_out o fnm) lv) =
+                    R 0 (St (p0 + n) (add_out (sep_out o fnm) id) lv)).
+  { unfold bind. rewrite Hndef. rewrite (append_len_at p0 p0 _ lv id rest H).
+    rewrite (consume_n_at _ (Z.of_nat (List.length id)) (id ++ rest)); [| exact H | reflexivity | rewrite app_length; lia ].
+    unfold ao, add_out. reflexivity. }
+  assert (Hidnd : Forall (fun c => c <> 36) id) by (apply no_dollar_ident; exact Hid).
+  unfold strchr_from. chs. pose proof H as [H0 [H1 H2]]. rewrite H1.
+  pose proof (index_of_ge id rest Hidnd) as Hi.
+  destruct (index_of 36 (id ++ rest)) as [d |]; [| exact Hsimple ].
+  destruct (p0 + d >? p0 + n) eqn:Eg; [ exact Hsimple |].
+  (* the '$' is the first byte behind the name: the loop does nothing *)
+  cbn [dollar_loop]. assert (Ege : negb (p0 + d <? p0 + n) = true) by (apply negb_true_iff; apply Z.ltb_ge; lia).
+  rewrite Ege. rewrite bind_ret. replace (p0 + n - p0) with n by lia. exact Hsimple.
+Qed.
+
+(* dd_unqualified_name around any <number>... component *)
+Lemma unq_of_src : forall k p o lv fnm cenc rest p' o',
+  At p (cenc ++ rest) -> 48 <= hd0 (cenc ++ rest) <= 57 ->
+  dd_source_name true s 0 (NS p o lv fnm) = R 0 (St p' o' lv) -> At p' rest -> hd0 rest <> 66 ->
+  run true s 0 (S k) FUnqualifiedName (NS p o lv fnm) = R 0 (St p' o' lv).
+Proof.
+  intros k p o lv fnm cenc rest p' o' H Hd Hsrc H' HB.
+  cbn [run body]. unfold dd_unqualified_name. unfold NS at 1.
+  destruct (cenc ++ rest) as [| d tl] eqn:E; [ cbn in Hd; lia |]. cbn [hd0] in Hd.
+  erewrite bind_R; [| apply (curr_at _ (d :: tl)); [ exact H | reflexivity ] ].
+  erewrite bind_R; [| apply (peek1_at _ d tl); [ exact H | reflexivity ] ].
+  rewrite bind_eof. stsimpl. pose proof (At_lt _ _ _ H) as Hlt. rwf (p >=? L). cbn [hd0]. chs. cbn [Z.eqb].
+  rwf (d =? 67). rwf (d =? 68). rwf (d =? 85). cbn [orb].
+  unfold islower. rwf (97 <=? d). cbn [andb]. rwf (d =? 76).
+  rewrite bind_ret. fold (NS p o lv fnm).
+  erewrite bind_R; [| exact Hsrc ].
+  unfold NS at 1.
+  erewrite bind_R; [| apply (curr_at _ rest); [ exact H' | reflexivity ] ].
+  rwf (hd0 rest =? 66). reflexivity.
+Qed.
+
+(* rest-independent form of the `as` condition *)
+Fixpoint noas_c (gs : list rgroup) (tl : list Z) : Prop :=
+  match gs with
+  | [] => True
+  | g :: r => (rg_code g = str "u20" -> prefix_of [97; 115] (enc_groups r ++ tl) = false) /\ noas_c r tl
+  end.
+Definition rest_ok (rest : list Z) : Prop := 48 <= hd0 rest <= 57 \/ hd0 rest = 69.
+
+Lemma as_prefix_inv : forall code punct X, In (code, punct) rust_mappings ->
+  prefix_of (str "$u20$as$u20$") (36 :: code ++ 36 :: X) = true -> code = str "u20" /\ prefix_of [97; 115] X = true.
+Proof.
+  intros code punct X H Hp. unfold rust_mappings in H. cbn [In] in H.
+  repeat (destruct H as [H | H]; [ inversion H; subst; cbn in Hp; try discriminate |]); try contradiction.
+  split; [ reflexivity |]. destruct X as [| a [| b X]]; cbn in Hp |- *; try discriminate.
+  - rewrite andb_false_r in Hp. discriminate.
+  - apply andb_prop in Hp. destruct Hp as [Ha Hp]. apply andb_prop in Hp. destruct Hp as [Hb _]. rewrite Ha, Hb. reflexivity.
+Qed.
+Lemma prefix_as_app : forall Y rest, prefix_of [97; 115] Y = false -> rest_ok rest -> prefix_of [97; 115] (Y ++ rest) = false.
+Proof.
+  intros Y rest H Hr. unfold rest_ok in Hr. destruct Y as [| a Y].
+  - cbn [app]. destruct rest as [| r0 rest']; [ reflexivity |]. cbn [prefix_of hd0] in *. destruct Hr as [Hr | Hr]; rwf (97 =? r0); reflexivity.
+  - destruct Y as [| b Y]; [| exact H ].
+    cbn [app prefix_of] in *. destruct (97 =? a); [| reflexivity ]. cbn [andb].
+    destruct rest as [| r0 rest']; [ reflexivity |]. cbn [hd0] in Hr. destruct Hr as [Hr | Hr]; rwf (115 =? r0); reflexivity.
+Qed.
+Lemma noas_lift : forall gs tl rest, Forall rgroup_ok gs -> noas_c gs tl -> rest_ok rest -> noas gs (tl ++ rest).
+Proof.
+  induction gs as [| g gs IH]; intros tl rest Hok Hn Hr; [ exact I |].
+  inversion Hok as [| ? ? [_ [_ Hin]] Hgs ]; subst. destruct Hn as [Hn1 Hn2]. split; [| apply IH; assumption ].
+  destruct (prefix_of (str "$u20$as$u20$") (36 :: rg_code g ++ 36 :: enc_groups gs ++ tl ++ rest)) eqn:E; [| reflexivity ].
+  exfalso. destruct (as_prefix_inv _ _ _ Hin E) as [Ec Ep]. specialize (Hn1 Ec).
+  rewrite app_assoc in Ep. rewrite (prefix_as_app _ rest Hn1 Hr) in Ep. discriminate.
+Qed.
+
+(* ---- components of a Rust path *)
+Inductive rcomp := RPlain (id : list Z) | RDollar (gs : list rgroup) (tl : list Z)
+  | RDollarAs (gs : list rgroup) (ps : list (list Z)) (txt asrest : list Z).
+Definition rc_enc (c : rcomp) : list Z :=
+  match c with RPlain id => src id | RDollar gs tl => rd_src gs tl | RDollarAs gs ps txt asrest => ra_src gs ps txt asrest end.
+Definition rc_out (c : rcomp) (o : option (list Z)) (fnm : bool) : option (list Z) :=
+  match c with
+  | RPlain id => add_out (sep_out o fnm) id
+  | RDollar gs tl => ao (tr_groups (sep_out o fnm) gs) tl
+  | RDollarAs gs ps txt asrest => ao (ao (tr_pairs (tr_groups (sep_out o fnm) gs) ps) txt) (str ">")
+  end.
+Definition rc_ok (c : rcomp) : Prop :=
+  match c with
+  | RPlain id => ident_okb id = true
+  | RDollar gs tl =>
+      gs <> [] /\ Forall rgroup_ok gs /\ Forall (fun x => x <> 36) tl /\ starts_nondigit (rd_text gs tl) /\
+      0 < Z.of_nat (List.length (rd_text gs tl)) < 1000000000 /\
+      ((Z.of_nat (List.length (rd_text gs tl)) =? 17) && hash17 (rd_text gs tl)) = false /\ noas_c gs tl
+  | RDollarAs gs ps txt asrest =>
+      Forall rgroup_ok gs /\ Forall plain_txt ps /\ plain_txt txt /\ starts_nondigit (ra_text gs ps txt asrest) /\
+      0 < Z.of_nat (List.length (ra_text gs ps txt asrest)) < 1000000000 /\
+      ((Z.of_nat (List.length (ra_text gs ps txt asrest)) =? 17) && hash17 (ra_text gs ps txt asrest)) = false /\
+      noas_c gs (asblock ps txt asrest)
+  end.
+
+Lemma rc_enc_hd : forall c rest, rc_ok c -> 48 <= hd0 (rc_enc c ++ rest) <= 57.
+Proof.
+  intros c rest H. destruct c as [id | gs tl | gs ps txt asrest]; cbn [rc_enc rc_ok] in *.
+  - apply src_hd_digit. exact H.
+  - destruct H as [_ [_ [_ [_ [Hn _]]]]]. unfold rd_src. rewrite <- app_assoc.
+    destruct (hd0_dec_digit _ (rd_text gs tl ++ rest) Hn) as [Hd _]. apply isdigit_range. exact Hd.
+  - destruct H as [_ [_ [_ [_ [Hn _]]]]]. unfold ra_src. rewrite <- app_assoc.
+    destruct (hd0_dec_digit _ (ra_text gs ps txt asrest ++ rest) Hn) as [Hd _]. apply isdigit_range. exact Hd.
+Qed.
+
+Lemma unq_rcomp : forall c k p o lv fnm rest, rc_ok c -> At p (rc_enc c ++ rest) -> rest_ok rest ->
+  run true s 0 (S k) FUnqualifiedName (NS p o lv fnm) =
+  R 0 (St (p + Z.of_nat (List.length (rc_enc c))) (rc_out c o fnm) lv).
+Proof.
+  intros c k p o lv fnm rest Hok H Hr.
+  assert (HB : hd0 rest <> 66) by (destruct Hr; lia).
+  apply (unq_of_src k p o lv fnm (rc_enc c) rest); [ exact H | apply rc_enc_hd; exact Hok | | apply At_app; exact H | exact HB ].
+  destruct c as [id | gs tl | gs ps txt asrest]; cbn [rc_enc rc_out rc_ok] in *.
+  - apply (source_name_plain2 p o lv fnm id rest H Hok).
+  - destruct Hok as [A [B [C [D [E [F G]]]]]].
+    apply (source_name_dollar_at p o lv fnm gs tl rest H).
+    repeat split; try assumption; try lia. apply noas_lift; assumption.
+  - destruct Hok as [A [B [C [D [E [F G]]]]]].
+    apply (source_name_dollar_as_at p o lv fnm gs ps txt asrest rest H).
+    repeat split; try assumption; try lia. apply noas_lift; assumption.
+Qed.
+
+Definition rcs_enc (cs : list rcomp) : list Z := List.concat (map rc_enc cs).
+Fixpoint rcs_out (o : option (list Z)) (fnm : bool) (cs : list rcomp) : option (list Z) :=
+  match cs with [] => o | c :: r => rcs_out (rc_out c o fnm) false r end.
+
+Lemma nested_rcomps : forall cs k p o lv fnm rest,
+  At p (rcs_enc cs ++ rest) -> Forall rc_ok cs -> rest_ok rest ->
+  run true s 0 (List.length cs + S k) (LNested 0) (NS p o lv fnm) =
+  run true s 0 (S k) (LNested 0)
+    (NS (p + Z.of_nat (List.length (rcs_enc cs))) (rcs_out o fnm cs) lv (match cs with [] => fnm | _ => false end)).
+Proof.
+  induction cs as [| c cs IH]; intros k p o lv fnm rest H Hok Hr.
+  - cbn [List.length rcs_enc map List.concat app rcs_out Nat.add]. replace (p + Z.of_nat 0) with p by lia. reflexivity.
+  - inversion Hok as [| ? ? Hc Hcs]; subst.
+    unfold rcs_enc in *. cbn [map List.concat] in *. rewrite <- app_assoc in H.
+    cbn [List.length Nat.add]. cbn [run body]. unfold nested_loop.
+    pose proof (rc_enc_hd c (List.concat (map rc_enc cs) ++ rest) Hc) as Hd.
+    destruct (rc_enc c ++ List.concat (map rc_enc cs) ++ rest) as [| d tl] eqn:E; [ cbn in Hd; lia |].
+    cbn [hd0] in Hd. unfold NS at 1.
+    erewrite bind_R; [| apply (curr_at _ (d :: tl)); [ exact H | reflexivity ] ].
+    rewrite bind_eof. stsimpl. pose proof (At_lt _ _ _ H) as Hlt. rwf (p >=? L). cbn [hd0]. chs. cbn [Z.eqb].
+    rwf (d =? 69). cbn [orb negb].
+    erewrite bind_R; [| apply (peek1_at _ d tl); [ exact H | reflexivity ] ].
+    rwf (d =? 68). rwf (d =? 67). cbn [andb orb]. rwf (d =? 85). cbn [orb].
+    unfold islower, isdigit. rwf (97 <=? d). rwt (48 <=? d). rwt (d <=? 57). cbn [andb orb].
+    rewrite <- E in H.
+    assert (Hr2 : rest_ok (List.concat (map rc_enc cs) ++ rest)).
+    { destruct cs as [| c2 cs2]; [ exact Hr |]. inversion Hcs; subst. cbn [map List.concat]. rewrite <- app_assoc.
+      left. apply rc_enc_hd. assumption. }
+    replace (List.length cs + S k)%nat with (S (List.length cs + k)) by lia.
+    fold (NS p o lv fnm).
+    erewrite bind_R; [| apply (unq_rcomp c _ p o lv fnm (List.concat (map rc_enc cs) ++ rest)); assumption ].
+    replace (S (List.length cs + k)) with (List.length cs + S k)%nat by lia.
+    rewrite (IH k _ _ lv false rest (At_app _ _ _ H) Hcs Hr).
+    cbn [rcs_out]. rewrite app_length.
+    replace (p + Z.of_nat (List.length (rc_enc c)) + Z.of_nat (List.length (List.concat (map rc_enc cs))))
+      with (p + Z.of_nat (List.length (rc_enc c) + List.length (List.concat (map rc_enc cs)))) by lia.
+    destruct cs; reflexivity.
+Qed.
+
+(* _ZN <component>+ 17h<hash> E  with escapes in the components *)
+Lemma rust2_encoding_at : forall c cs h F x,
+  s = str "_ZN" ++ rcs_enc (c :: cs) ++ str "17" ++ h ++ [69] ->
+  Forall rc_ok (c :: cs) -> hash_okb h = true -> rcs_out None true (c :: cs) = Some x -> L <= INT_MAX ->
+  (List.length (c :: cs) + 8 <= F)%nat ->
+  run true s 0 F FEncoding (st0 L) = R 0 (NS L (Some x) 0 false).
+Proof.
+  intros c cs h F x Hs Hok Hh Hx HL HF.
+  set (comps := c :: cs) in *.
+  set (body := rcs_enc comps ++ str "17" ++ h ++ [69]) in *.
+  assert (H0 : At 0 (95 :: 90 :: 78 :: body)).
+  { unfold At. split; [ lia |]. split; [ unfold suffix; cbn [Z.add Z.to_nat skipn]; rewrite Hs; reflexivity |].
+    unfold flen. rewrite Hs. cbn [str app List.length]. lia. }
+  pose proof (At_cons _ _ _ H0) as H1. pose proof (At_cons _ _ _ H1) as H2. cbn [Z.add Pos.add] in H1, H2.
+  assert (Hhl : List.length h = 17%nat).
+  { unfold hash_okb in Hh. apply andb_prop in Hh. destruct Hh as [Hlen _]. apply Nat.eqb_eq in Hlen. exact Hlen. }
+  assert (HLen : L = 3 + Z.of_nat (List.length (rcs_enc comps)) + 19 + 1).
+  { destruct H0 as [_ [_ HH]]. cbn [List.length] in HH. unfold body in HH.
+    repeat rewrite app_length in HH. cbn [List.length str] in HH. lia. }
+  destruct F as [| F1]; [ lia |]. destruct F1 as [| F2]; [ lia |]. destruct F2 as [| F3]; [ lia |].
+  change (run true s 0 (S (S (S F3))) FEncoding) with (dd_encoding s 0 (run true s 0 (S (S F3)))).
+  unfold dd_encoding, st0.
+  pose proof (At_lt _ _ _ H0) as HL0.
+  rewrite bind_eof. stsimpl. rwf (0 >=? L). cbn [Z.eqb].
+  rewrite bind_gets. stsimpl. cbn [Z.eqb].
+  erewrite bind_R; [| apply (consume_n_at _ 2 (95 :: 90 :: 78 :: body)); [ exact H0 | reflexivity | cbn [List.length]; lia ] ].
+  stsimpl. cbn [Z.add]. unfold inc_level. rewrite bind_modify. stsimpl. cbn [Z.add].
+  erewrite bind_R; [| apply (curr_at _ (78 :: body)); [ exact H2 | reflexivity ] ].
+  cbn [hd0]. chs. cbn [Z.eqb Pos.eqb orb].
+  set (pe := 3 + Z.of_nat (List.length (rcs_enc comps))).
+  assert (H3 : At pe (str "17" ++ h ++ [69])).
+  { unfold pe. apply (At_app _ (rcs_enc comps)). apply At_cons in H2. exact H2. }
+  assert (H4 : At (pe + 19) [69]).
+  { apply At_app in H3. apply At_app in H3. rewrite Hhl in H3. cbn [List.length str] in H3.
+    replace (pe + Z.of_nat 2 + Z.of_nat 17) with (pe + 19) in H3 by lia. exact H3. }
+  assert (Hname : run true s 0 (S (S F3)) FName (NS 2 None 1 true) = R 0 (NS L (Some x) 1 false)).
+  { change (run true s 0 (S (S F3)) FName) with (dd_name true s 0 (run true s 0 (S F3))).
+    unfold dd_name. unfold NS at 1.
+    erewrite bind_R; [| apply (curr_at _ (78 :: body)); [ exact H2 | reflexivity ] ].
+    pose proof (At_lt _ _ _ H2).
+    rewrite bind_eof. stsimpl. rwf (2 >=? L). cbn [hd0]. chs. cbn [Z.eqb Pos.eqb].
+    change (run true s 0 (S F3) FNestedName) with (dd_nested_name s 0 (run true s 0 F3)).
+    unfold dd_nested_name.
+    rewrite bind_eof. stsimpl. rwf (2 >=? L). cbn [Z.eqb].
+    unfold expect at 1. unfold consume.
+    erewrite bind_R; [| apply (consume_n_at _ 1 (78 :: body)); [ exact H2 | reflexivity | cbn [List.length]; lia ] ].
+    cbn [hd0]. chs. cbn [Z.eqb Pos.eqb]. stsimpl.
+    unfold inc_level. rewrite bind_modify. stsimpl. cbn [Z.add Pos.add].
+    fold (NS 3 None 2 true).
+    erewrite bind_R.
+    2:{ replace F3 with (List.length comps + S (S (S (F3 - List.length comps - 3))))%nat at 1 by (cbn [List.length] in *; lia).
+        rewrite (nested_rcomps comps _ 3 None 2 true (str "17" ++ h ++ [69])); try assumption.
+        - rewrite Hx. change (match comps with [] => true | _ :: _ => false end) with false. fold pe.
+          change (run true s 0 (S (S (S (F3 - List.length comps - 3)))) (LNested 0))
+            with (nested_loop true s 0 (run true s 0 (S (S (F3 - List.length comps - 3)))) 0).
+          unfold nested_loop. unfold NS at 1. cbn [str app] in H3.
+          erewrite bind_R; [| apply (curr_at _ (49 :: 55 :: h ++ [69])); [ exact H3 | reflexivity ] ].
+          pose proof (At_lt _ _ _ H3).
+          rewrite bind_eof. stsimpl. rwf (pe >=? L). cbn [hd0]. chs. cbn [Z.eqb Pos.eqb orb negb].
+          erewrite bind_R; [| apply (peek1_at _ 49 (55 :: h ++ [69])); [ exact H3 | reflexivity ] ].
+          cbn [andb orb]. unfold islower, isdigit.
+          cbn [Z.leb Z.compare Pos.compare Pos.compare_cont andb orb].
+          fold (NS pe (Some x) 2 false).
+          erewrite bind_R; [| apply (unq_hash _ pe _ 2 false h [69]); [ exact H3 | exact Hh | exact HL | cbn; lia ] ].
+          apply (nested_end_plain _ (pe + 19) _ 2 false []). exact H4.
+        - apply At_cons in H2. exact H2.
+        - left. cbn. lia. }
+    unfold expect. unfold consume. unfold NS at 1.
+    erewrite bind_R; [| apply (consume_n_at _ 1 [69]); [ exact H4 | reflexivity | cbn [List.length]; lia ] ].
+    cbn [hd0]. chs. cbn [Z.eqb Pos.eqb]. stsimpl.
+    unfold dec_level. rewrite bind_modify. stsimpl. unfold ret, NS. cbn [Z.sub Z.add Z.opp Z.pos_sub Pos.pred_double].
+    replace (pe + 19 + 1) with L by (unfold pe; lia). reflexivity. }
+  fold (NS 2 None 1 true). erewrite bind_R; [| exact Hname ].
+  cbn [Z.ltb Z.compare].
+  assert (Hend : At L []).
+  { replace L with (pe + 19 + Z.of_nat (List.length [69])) by (unfold pe; cbn [List.length]; lia).
+    apply (At_app _ [69] []). exact H4. }
+  (* the type loop stops at once: end of string *)
+  erewrite bind_R.
+  2:{ change (run true s 0 (S (S F3)) LEncTypes) with (enc_types_loop s 0 (run true s 0 (S F3))).
+      unfold enc_types_loop, NS. rewrite bind_eof. stsimpl. rwt (L >=? L).
+      erewrite bind_R; [| apply (curr_at _ []); [ exact Hend | reflexivity ] ].
+      cbn [Z.eqb orb Pos.eqb]. reflexivity. }
+  erewrite bind_R; [| apply (curr_at _ []); [ exact Hend | reflexivity ] ].
+  cbn [hd0]. chs. cbn [Z.eqb]. rewrite bind_ret.
+  erewrite bind_R; [| apply (curr_at _ []); [ exact Hend | reflexivity ] ].
+  cbn [hd0 Z.eqb]. rewrite bind_ret.
+  unfold dec_level. rewrite bind_modify. stsimpl. reflexivity.
 Qed.
 End Walk.
 
@@ -3166,12 +4204,36 @@ Definition gname (ids : list (list Z)) (l : lastk) : list Z :=
   | LOp c0 c1 => str "::operator" ++ op_name c0 c1
   end.
 
+Lemma last_segment_join_gen : forall a cs, no_colon (last (a :: cs) []) ->
+  last_segment (join_sep (a :: cs)) = last (a :: cs) [].
+Proof.
+  intros a cs. revert a. induction cs as [| z cs' IH] using rev_ind; intros a H.
+  - cbn [join_sep map List.concat last] in *. rewrite app_nil_r. unfold last_segment. change (ch ":") with 58.
+    rewrite rindex_none by assumption. reflexivity.
+  - change (a :: cs' ++ [z]) with ((a :: cs') ++ [z]) in *.
+    rewrite last_last in *.
+    change ((a :: cs') ++ [z]) with (a :: cs' ++ [z]).
+    cbn [join_sep]. rewrite map_app, concat_app. cbn [map List.concat]. rewrite app_nil_r.
+    set (P := a ++ List.concat (map (fun id => str "::" ++ id) cs')).
+    replace (a ++ List.concat (map (fun id => str "::" ++ id) cs') ++ str "::" ++ z)
+      with (P ++ [58; 58] ++ z) by (unfold P; rewrite <- app_assoc; reflexivity).
+    unfold last_segment. change (ch ":") with 58.
+    rewrite rindex_app, rindex_app. rewrite (rindex_none 58 z) by assumption.
+    cbn [rindex_of Z.eqb Pos.eqb List.length].
+    replace (Z.to_nat (0 + Z.of_nat (List.length P) + 1 + 1)) with (List.length P + 2)%nat by lia.
+    rewrite skipn_app. rewrite skipn_all2 by lia.
+    replace (List.length P + 2 - List.length P)%nat with 2%nat by lia. reflexivity.
+Qed.
+Definition needs_class (l : lastk) : bool := match l with LCtor _ | LDtor _ => true | _ => false end.
+
+(* [ids] are the components as printed: identifiers, or "std", "std::allocator", ... for S t, S a, ... *)
 Theorem roundtrip_general : forall quals n id ids enc l m ptxt,
   forallb qual_okb quals = true -> Comps n (id :: ids) enc -> last_okb l = true -> PTys m ptxt ->
+  (needs_class l = true -> ident_okb (last (id :: ids) []) = true) ->
   Z.of_nat (List.length (gmangle quals enc l ptxt)) <= INT_MAX ->
   demangle (gmangle quals enc l ptxt) = Str (gname (id :: ids) l).
 Proof.
-  intros quals n id ids enc l m ptxt Hq Hc Hl Hpar HL.
+  intros quals n id ids enc l m ptxt Hq Hc Hl Hpar Hcls HL.
   set (s := gmangle quals enc l ptxt) in *.
   assert (Hs : s = str "_ZN" ++ quals ++ enc ++ last_enc l ++ 69 :: ptxt) by reflexivity.
   assert (Hpnd : no_dollar ptxt).
@@ -3186,15 +4248,84 @@ Proof.
   assert (Hfuel : (List.length quals + n + m + 10 <= fuel_of s)%nat).
   { unfold fuel_of. rewrite Hs. cbn [str]. repeat rewrite app_length. cbn [List.length].
     pose proof (Comps_cost n (id :: ids) enc Hc). lia. }
-  assert (Hids : Forall (fun i => ident_okb i = true) (id :: ids)).
-  { clear - Hc. remember (id :: ids) as L0. clear HeqL0. induction Hc; constructor; assumption. }
   assert (Hpre : prefix_of prefix_str s = false) by (rewrite Hs; reflexivity).
   replace (gname (id :: ids) l) with (last_out (join_sep (id :: ids)) l).
   - apply demangle_of_encoding.
     + exact Hpre.
     + unfold mangled_form, stripped. rewrite Hpre. rewrite Hs. reflexivity.
     + apply (gencoding_at s quals n id ids enc l m ptxt (fuel_of s) Hs Hq Hc Hl Hpar Hnd HL Hfuel).
-  - rewrite (last_out_eq _ _ _ Hids Hl). reflexivity.
+  - unfold gname. destruct l as [| kd | kd | c0 c1]; cbn [last_out needs_class] in *.
+    + rewrite app_nil_r. reflexivity.
+    + rewrite (last_segment_join_gen _ _ (ident_no_colon _ (Hcls eq_refl))). reflexivity.
+    + rewrite (last_segment_join_gen _ _ (ident_no_colon _ (Hcls eq_refl))). reflexivity.
+    + unfold op_name. destruct (find_op ops c0 c1) as [nm |] eqn:E.
+      * rewrite <- !app_assoc. reflexivity.
+      * exfalso. cbn [last_okb] in Hl. rewrite E in Hl. rewrite andb_false_r in Hl. discriminate.
+Qed.
+
+Definition std_unscoped_mangle (id ta ptxt : list Z) : list Z := str "_ZSt" ++ src id ++ ta ++ ptxt.
+Theorem roundtrip_std_unscoped : forall id n ta m ptxt,
+  ident_okb id = true -> TA n ta -> PTys m ptxt ->
+  Z.of_nat (List.length (std_unscoped_mangle id ta ptxt)) <= INT_MAX ->
+  demangle (std_unscoped_mangle id ta ptxt) = Str (str "std::" ++ id).
+Proof.
+  intros id n ta m ptxt Hid Hta Hpar HL.
+  set (s := std_unscoped_mangle id ta ptxt) in *.
+  assert (Hs : s = str "_ZSt" ++ src id ++ ta ++ ptxt) by reflexivity.
+  assert (Hpnd : no_dollar ptxt).
+  { clear - Hpar. induction Hpar; [ constructor |]. apply Forall_app. split; [| assumption ].
+    apply (proj1 grammar_no_dollar n u). assumption. }
+  assert (Hnd : no_dollar (id ++ ta ++ ptxt)).
+  { apply Forall_app. split; [ apply no_dollar_ident; exact Hid |]. apply Forall_app. split; [| exact Hpnd ].
+    apply (proj1 (proj2 grammar_no_dollar) n ta Hta). }
+  assert (Hpc : (m <= 6 * List.length ptxt + 1)%nat).
+  { clear - Hpar. induction Hpar; [ cbn; lia |]. rewrite app_length. pose proof (proj1 grammar_cost n u H). lia. }
+  assert (Hfuel : (n + m + 10 <= fuel_of s)%nat).
+  { unfold fuel_of. rewrite Hs. cbn [str]. repeat rewrite app_length. cbn [List.length].
+    pose proof (proj1 (proj2 grammar_cost) n ta Hta). lia. }
+  assert (Hpre : prefix_of prefix_str s = false) by (rewrite Hs; reflexivity).
+  apply demangle_of_encoding.
+  - exact Hpre.
+  - unfold mangled_form, stripped. rewrite Hpre. rewrite Hs. reflexivity.
+  - apply (std_unscoped_encoding_at s id n ta m ptxt (fuel_of s) Hs Hid Hta Hpar Hnd); [ unfold flen; exact HL | exact Hfuel ].
+Qed.
+
+(* non-vacuity:  void std::vector<app::Rec, std::allocator<app::Rec> >::push_back(app::Rec const&)   and   std::sort *)
+Example roundtrip_examples7 :
+  (exists n m enc ptxt,
+     Comps n [str "std"; str "vector"; str "push_back"] enc /\ PTys m ptxt /\
+     gmangle [] enc LPlain ptxt = str "_ZNSt6vectorIN3app3RecESaIS1_EE9push_backERKS1_" /\
+     gname [str "std"; str "vector"; str "push_back"] LPlain = str "std::vector::push_back") /\
+  (exists n m ta ptxt, TA n ta /\ PTys m ptxt /\
+     std_unscoped_mangle (str "sort") ta ptxt = str "_ZSt4sortIPN3app3RecEEvS2_S2_").
+Proof.
+  split.
+  - do 4 eexists. split; [| split; [| split ] ].
+    + eapply (CP_abbr (ch "t") (str "std") _ [] _ _ _ eq_refl TA_none).
+      eapply (CP_cons (str "vector") _ _ _ _ _ eq_refl).
+      { eapply TA_some. eapply TAL_ty.
+        { eapply TL_nested. eapply (NI_src (str "app") _ [] _ _ eq_refl TA_none).
+          eapply (NI_src (str "Rec") _ [] _ _ eq_refl TA_none). apply NI_nil. }
+        eapply TAL_ty.
+        { eapply (TL_abbr (ch "a") (str "std::allocator") _ _ eq_refl); [ discriminate |].
+          eapply TA_some. eapply TAL_ty; [ eapply (TL_subst (str "1") _ [] eq_refl TA_none) | apply TAL_nil ]. }
+        apply TAL_nil. }
+      eapply (CP_cons (str "push_back") _ [] _ _ _ eq_refl TA_none). apply CP_nil.
+    + eapply PT_cons.
+      { eapply (TL_qual (ch "R")); [ reflexivity |]. eapply (TL_qual (ch "K")); [ reflexivity |].
+        eapply (TL_subst (str "1") _ [] eq_refl TA_none). }
+      apply PT_nil.
+    + vm_compute. reflexivity.
+    + vm_compute. reflexivity.
+  - do 4 eexists. split; [| split ].
+    + eapply TA_some. eapply TAL_ty.
+      { eapply (TL_qual (ch "P")); [ reflexivity |]. eapply TL_nested.
+        eapply (NI_src (str "app") _ [] _ _ eq_refl TA_none). eapply (NI_src (str "Rec") _ [] _ _ eq_refl TA_none). apply NI_nil. }
+      apply TAL_nil.
+    + eapply PT_cons; [ apply (TL_builtin (ch "v")); reflexivity |].
+      eapply PT_cons; [ eapply (TL_subst (str "2") _ [] eq_refl TA_none) |].
+      eapply PT_cons; [ eapply (TL_subst (str "2") _ [] eq_refl TA_none) |]. apply PT_nil.
+    + vm_compute. reflexivity.
 Qed.
 
 (* non-vacuity:  void app::Vec<app::Rec, app::Alloc<app::Rec> >::push(app::Rec const&, pointer to app::Vec<int, 3>) *)
@@ -3232,4 +4363,65 @@ Proof.
     apply PT_nil.
   - vm_compute. reflexivity.
   - vm_compute. reflexivity.
+Qed.
+
+(* ================================================================ Rust legacy names with escapes *)
+(* _ZN <component>+ 17h<16 hex digits> E  where a component is an identifier, or
+     <number> ( (<text> ..)* <text> $<code>$ )+ <tail>                      ($LT$ $GT$ $RF$ $u20$ ... and `..` -> `::`), or
+     <number> ( (<text> ..)* <text> $<code>$ )* (<text> ..)* <text> $u20$as$u20$ <anything>     (` as Trait` is dropped, `>` printed) *)
+Definition rust2_mangle (cs : list rcomp) (h : list Z) : list Z := str "_ZN" ++ rcs_enc cs ++ str "17" ++ h ++ [69].
+Definition rust2_name (cs : list rcomp) : list Z := match rcs_out None true cs with Some x => x | None => [] end.
+
+Lemma rcs_enc_length : forall cs, Forall rc_ok cs -> (List.length cs <= List.length (rcs_enc cs))%nat.
+Proof.
+  induction cs as [| c cs IH]; intros H; [ cbn; lia |]. inversion H; subst. specialize (IH ltac:(assumption)).
+  unfold rcs_enc in *. cbn [map List.concat List.length]. rewrite app_length.
+  assert (1 <= List.length (rc_enc c))%nat.
+  { pose proof (rc_enc_hd c [] ltac:(assumption)) as Hd. rewrite app_nil_r in Hd. destruct (rc_enc c); [ cbn in Hd; lia | cbn; lia ]. }
+  lia.
+Qed.
+
+Theorem roundtrip_rust2 : forall c cs h, Forall rc_ok (c :: cs) -> hash_okb h = true ->
+  Z.of_nat (List.length (rust2_mangle (c :: cs) h)) <= INT_MAX ->
+  demangle (rust2_mangle (c :: cs) h) = Str (rust2_name (c :: cs)).
+Proof.
+  intros c cs h Hok Hh HL.
+  set (s := rust2_mangle (c :: cs) h) in *.
+  assert (Hs : s = str "_ZN" ++ rcs_enc (c :: cs) ++ str "17" ++ h ++ [69]) by reflexivity.
+  assert (Hx : exists x, rcs_out None true (c :: cs) = Some x).
+  { cbn [rcs_out]. assert (G : forall cs0 o, exists x, rcs_out (Some o) false cs0 = Some x).
+    { induction cs0 as [| c0 cs0 IH]; intros o; [ eexists; reflexivity |]. cbn [rcs_out].
+      destruct c0; cbn [rc_out]; unfold add_out, ao; apply IH. }
+    destruct c; cbn [rc_out]; unfold add_out, ao; apply G. }
+  destruct Hx as [x Hx].
+  assert (Hfuel : (List.length (c :: cs) + 8 <= fuel_of s)%nat).
+  { unfold fuel_of. rewrite Hs. cbn [str]. repeat rewrite app_length. cbn [List.length].
+    pose proof (rcs_enc_length _ Hok). cbn [List.length] in *. lia. }
+  unfold rust2_name. rewrite Hx.
+  apply demangle_of_encoding.
+  - rewrite Hs. reflexivity.
+  - unfold mangled_form, stripped. rewrite Hs. reflexivity.
+  - apply (rust2_encoding_at s c cs h (fuel_of s) x Hs Hok Hh Hx); [ unfold flen; exact HL | exact Hfuel ].
+Qed.
+
+(* non-vacuity: the trait-impl name of utils/demangle.c's own unit test *)
+Definition rc_stdout : rcomp :=
+  RDollarAs [ mkrg [] (str "_") (str "LT") (str "<"); mkrg [] [] (str "RF") (str "&") ]
+            [ str "std"; str "io"; str "stdio" ] (str "Stdout") (str "std..io..Write$GT$").
+Example roundtrip_examples8 :
+  Forall rc_ok [rc_stdout; RPlain (str "write_fmt")] /\
+  rust2_mangle [rc_stdout; RPlain (str "write_fmt")] (str "h75c561f414a62159") =
+    str "_ZN61_$LT$$RF$std..io..stdio..Stdout$u20$as$u20$std..io..Write$GT$9write_fmt17h75c561f414a62159E" /\
+  rust2_name [rc_stdout; RPlain (str "write_fmt")] = str "_<&std::io::stdio::Stdout>::write_fmt".
+Proof.
+  split; [| split; vm_compute; reflexivity ].
+  constructor; [| constructor; [ reflexivity | constructor ] ].
+  cbn [rc_ok rc_stdout]. split.
+  { constructor; [| constructor; [| constructor ] ]; (split; [ constructor | split; [ repeat constructor; discriminate | unfold rust_mappings; cbn [In]; tauto ] ]). }
+  split. { repeat constructor; discriminate. }
+  split. { repeat constructor; discriminate. }
+  split. { vm_compute. reflexivity. }
+  split. { vm_compute. split; reflexivity. }
+  split. { vm_compute. reflexivity. }
+  cbn [noas_c rg_code]. split; [ intros E; discriminate |]. split; [ intros E; discriminate | exact I ].
 Qed.
